@@ -4,6 +4,7 @@ from __future__ import annotations
 import ast
 import itertools
 import re
+import string
 from typing import Dict, List, Optional, Set, Tuple
 
 from .. import cfg as C
@@ -42,10 +43,35 @@ EXPLANATION = (
     "simplified equation, child 0 / child 1) as primary operands. C13.eliminate: for every operator that the guard of "
     "extract_eliminated_expressions admits (valuation of the tests on the left operand's value over + - * /) the returned pair "
     "(eliminated operand, replacement R) -- AnyNode constructions evaluated to exact rational normal forms over e1, e2, r, with "
-    "r = 0 in the branch taken for a zero right-hand side -- satisfies op(R, e2) == r. C13.env: the precision setting is a number."
+    "r = 0 in the branch taken for a zero right-hand side -- satisfies op(R, e2) == r. C13.env: the precision setting is a number. "
+    "C13.returns (CFG): a function of the two modules declared `-> str` has no path that falls off its end; no statement that every turn of its loops "
+    "executes reads a local name that no forward path from the entry has bound (nor a name bound nowhere). C13.operands (provenance of arguments, "
+    "flattened front-ends): the comparison text is split after exactly the outer parentheses are cut off -- by simplify_inequality or by its callers, "
+    "not by both or neither (constant slices composed along the path, small integer arithmetic folded); transform_expression gets (text, symbols of an "
+    "earlier call); text reaches Eq only through sympify / parse_expr; the side whose provenance is split part 1 / .rhs is printed with "
+    "should_remove_trailing_zeros = False; the loop over the assumptions is not left early and every turn passes a .subs on both sides; the sides of "
+    "the simplified equation are read only under `not isinstance(.., BooleanTrue)`, and under that valuation no return is None. C13.conditions (guard "
+    "valuation over `operator == '='`, `result is truthy`, `elimination is None`): in every function that calls simplify_equality / simplify_inequality "
+    "the equality call is reached only for '=' and the other only otherwise; the text is to_mathematical() minus exactly the outer parentheses "
+    "(together with the callee); the operator handed over is root.value; under `result truthy` every path on from the call passes a statement that "
+    "returns / yields / collects the result; the loop is not left early; an elimination that is None is not unpacked (or the unpacking is inside "
+    "try/except TypeError), one that is not None passes the statement that collects the assumption; both front-ends are called somewhere. "
+    "C13.branches (guard valuation over the finite abstraction atom / x**-1 / x**2 / x**3 / sum-or-product of the node; comparisons of .exp with "
+    "constants decided arithmetically): each kind reaches its own construct (extract_atom(node) / a text '(/ 1 ..)' / a use of the exponent as a value "
+    "/ an iteration over node.args) and none of the others; the power loop `range(a*n + b)` over a text of c factors adding d per turn has "
+    "c + d*(a*n + b) == n for n = 2, 3 (templates read shallowly, constants folded). C13.walk (sum / product): in the loop over node.args every path "
+    "of a turn with a non-empty printed part passes its append / yield, and that collection reaches the return; in the loop that nests the parts "
+    "every path of a turn passes an assignment whose value contains the part of the turn and (when text is already built) the text built so far. "
+    "C13.zerodrop (extract_atom, valuation over class Float / the flag / `float(text) == 0`): flag off -> a return is reached and none is None; flag on "
+    "and not zero -> no None; a comparison of the printed number with another constant than 0 that guards the None is a boundary defect; the value is "
+    "the first argument of round / format. C13.fluents: transform_expression returns the untouched parameter only under `no fluent found` (a length "
+    "test against another constant than 0 is not an emptiness test). C13.opmatch additionally: when no printer idiom is found and the operator looked up "
+    "for the node reaches no returned text (def-use), that is reported instead of an analysis error; a printer that hands its own (node, operator) pair on "
+    "unchanged is accepted. Whatever an idiom is not recognised the clause is recorded as `not decided` in the notes of the rule."
 )
-UNDECIDED = ("validity and equivalence of the simplified text; that a condition is omitted only if implied; zero-coefficient dropping "
-             "inside products; everything that depends on what sympy returns for a given expression")
+UNDECIDED = ("validity and equivalence of the simplified text; that a condition sympy reports as always true is implied; zero-coefficient dropping "
+             "inside products; the parse flags (evaluate=False) of the sides; everything that depends on what sympy returns for a given expression; "
+             "clauses whose idiom is not recognised in a refactored tree (listed as `not decided` in the notes)")
 
 
 # the public API of today: functions a maintainer adds next to it (with or without a leading underscore) are helpers and are
@@ -919,7 +945,7 @@ class _Elim:
         if isinstance(e, ast.Constant):
             return None
         try:
-            tr = U.norm_paths(self.repo, self.p.trace(e, under=under))
+            tr = U.norm_paths(self.repo, self._through_built_nodes(self.p.trace(e, under=under)))
         except KeyError:
             return None
         out = set()
@@ -946,6 +972,54 @@ class _Elim:
         if len(out) != 1:
             return None
         return next(iter(out))
+
+    NODE_FIELDS = ("id", "value", "children")       # AnyNode(id=.., value=.., children=[..]) stores its keyword arguments under these names
+
+    def _copy_functions(self) -> Set[str]:
+        """the methods __copy__ of the tree class copies the tree with (`return Tree(self.<m>(self.root))`): as good as __copy__ itself"""
+        if not hasattr(self, "_copy_fns"):
+            out: Set[str] = set()
+            fi = self.repo.find_method(TREE_CLASS, "__copy__")
+            if fi is not None:
+                for c in L.calls_in(fi.node):
+                    if isinstance(c.func, ast.Attribute) and isinstance(c.func.value, ast.Name) and c.func.value.id == fi.self_name and len(c.args) == 1 \
+                            and isinstance(c.args[0], ast.Attribute) and c.args[0].attr == "root" and isinstance(c.args[0].value, ast.Name) and c.args[0].value.id == fi.self_name:
+                        out.add(c.func.attr)
+            self._copy_fns = out
+        return self._copy_fns
+
+    def _through_built_nodes(self, paths):
+        """provenance paths with a field read from a node that was built right before cancelled against the keyword argument it was built
+        from (`AnyNode(value=v, children=[a, b]).children[1]` is b), and the copy helper of __copy__ read as a copy"""
+        copies = {f"arg0:{m}" for m in self._copy_functions()}
+        out = set()
+        for x in paths:
+            if x[0] == "ext:AnyNode" and len(x) > 1:
+                continue            # the node object itself: what its fields hold arrives on the paths of the constructor arguments
+            if x[0] == "fresh:list" and len(x) > 1 and x[1] == "kw:children:AnyNode":
+                continue
+            if x[0] == "self" and len(x) > 1 and x[1] in {f"call:{m}" for m in self._copy_functions()}:
+                continue            # the copy helper copies its ARGUMENT (that path is there as well), not the object it is called on
+            steps: List[str] = []
+            dead = False
+            i = 0
+            while i < len(x):
+                st = x[i]
+                fld = st[3:-len(":AnyNode")] if st.startswith("kw:") and st.endswith(":AnyNode") else None
+                if fld in self.NODE_FIELDS and i + 1 < len(x) and x[i + 1].startswith("attr:"):
+                    if x[i + 1] == f"attr:{fld}":
+                        i += 2
+                        continue
+                    dead = True
+                    break
+                if st in copies:
+                    i += 1
+                    continue
+                steps.append(st)
+                i += 1
+            if not dead:
+                out.add(tuple(steps))
+        return out
 
     # -- constants
     def const_of(self, e: ast.AST, seen: Set[int], depth: int = 0):
@@ -1333,7 +1407,31 @@ def rule_opmatch(repo: Repo, rid: str = "C13.opmatch") -> RuleResult:
                 cand = n.right
             if isinstance(cand, ast.Name) and cand.id in f.params:
                 head_params[f.qn] = (f, cand.id, f.params.index(cand.id))
+    def operator_unwritten() -> bool:
+        """def-use: the operator looked up for the node (SYMPY_OP_TO_PDDL_OP[<node>.func]) reaches no returned text of the printer"""
+        ff = _fn(repo, f"{NS}::convert_expr_to_pddl")
+        pp = L.prov(repo, ff)
+        looked_up = []
+        for n in ast.walk(ff.node):
+            if isinstance(n, ast.Subscript) and isinstance(n.ctx, ast.Load):
+                try:
+                    tr = pp.trace(n.value)
+                except (KeyError, RecursionError):
+                    continue
+                if any(x[0] == "global:SYMPY_OP_TO_PDDL_OP" for x in tr):
+                    looked_up.append(n)
+        # only the look-up for the node itself (not the ones handed on to the recursive calls) decides: it is the first in source order
+        own = [n for n in looked_up if not any(isinstance(par, ast.Call) and n in par.args for par in ast.walk(ff.node))]
+        if any(isinstance(n, (ast.FunctionDef, ast.Lambda)) and n is not ff.node for n in ast.walk(ff.node)):
+            return False        # a nested function may write the operator: def-use through closures is not followed
+        return bool(own) and not any(U.flows_to_return(ff, n) for n in own)
+
     if not head_params:
+        if operator_unwritten():
+            r.site(f"{NS}::convert_expr_to_pddl [operator]")
+            r.fail(Finding(rid, _fn(repo, f"{NS}::convert_expr_to_pddl"), "operator-never-written", "the operator looked up for a sum / product (SYMPY_OP_TO_PDDL_OP[node.func]) "
+                           "reaches no text the printer returns: the parts of the node are not joined by it"))
+            return r
         raise AnalysisError("no printer with an operator parameter written as the head of '(op a b)' found in numeric_symbolic_operations")
     # a parameter handed on to a head parameter is a head parameter of the caller (helpers that only nest the parts)
     for _ in range(4):
@@ -1353,11 +1451,22 @@ def rule_opmatch(repo: Repo, rid: str = "C13.opmatch") -> RuleResult:
         if not grew:
             break
 
-    def expr_param(tf: FuncInfo) -> Optional[str]:
-        """the parameter that is the sympy node: .args / .func / .is_Atom / .base / .exp are read from it"""
+    def expr_param(tf: FuncInfo, depth: int = 0) -> Optional[str]:
+        """the parameter that is the sympy node: .args / .func / .is_Atom / .base / .exp are read from it, or (a function that only
+        hands the pair on) it is passed as the node to another printer"""
         for n in ast.walk(tf.node):
             if isinstance(n, ast.Attribute) and n.attr in ("args", "func", "is_Atom", "base", "exp") and isinstance(n.value, ast.Name) and n.value.id in tf.params:
                 return n.value.id
+        if depth < 3:
+            for c in L.calls_in(tf.node):
+                _cat, tg = repo.resolve_call(tf, c)
+                for _k, t, _c in tg:
+                    if t is None or t.qn not in head_params or t.qn == tf.qn:
+                        continue
+                    ep = expr_param(head_params[t.qn][0], depth + 1)
+                    a_ = L.arg_of(c, head_params[t.qn][0], ep) if ep else None
+                    if isinstance(a_, ast.Name) and a_.id in tf.params:
+                        return a_.id
         return None
 
     n_sites = 0
@@ -1380,14 +1489,1632 @@ def rule_opmatch(repo: Repo, rid: str = "C13.opmatch") -> RuleResult:
                 ex_paths = {x for x in p.trace(ex)}
                 table = any(x[0] == "global:SYMPY_OP_TO_PDDL_OP" for x in tr)
                 keys = {x[:x.index("attr:func")] for x in tr if "askey" in x and "attr:func" in x and x[-1] == "askey" and x[-2] == "attr:func"}
+                own = head_params.get(f.qn)
+                own_ex = expr_param(f) if own is not None else None
                 if table and keys and (keys & ex_paths):
                     r.ok({"call": unparse(c, 70), "operator": "SYMPY_OP_TO_PDDL_OP[<expression>.func]"})
+                elif own is not None and own_ex and own_ex != own[1] and set(tr) == {(f"param:{own[1]}",)} and ex_paths == {(f"param:{own_ex}",)}:
+                    # the pair is handed on as it was received: (node, operator of that node) is what every caller is held to
+                    r.ok({"call": unparse(c, 70), "operator": "the pair (expression, operator) of the enclosing printer, handed on unchanged"})
                 else:
                     what = "the operator parameter of the enclosing call" if any(x[0].startswith("param:") and len(x) == 1 for x in tr) else f"{sorted(tr)[:2]}"
                     r.fail(Finding(rid, f, "operator-of-other-node", f"{unparse(c, 70)}: the operator handed over for {unparse(ex, 30)} is {what}, not "
                                    f"SYMPY_OP_TO_PDDL_OP[{unparse(ex, 30)}.func]: the parts of that node are joined with another node's operator", node=c))
+    if n_sites < 2 and operator_unwritten():
+        r.site(f"{NS}::convert_expr_to_pddl [operator]")
+        r.fail(Finding(rid, _fn(repo, f"{NS}::convert_expr_to_pddl"), "operator-never-written", "the operator looked up for a sum / product (SYMPY_OP_TO_PDDL_OP[node.func]) "
+                       "reaches no text the printer returns: the parts of the node are not joined by it"))
+        return r
     if n_sites < 2:
         raise AnalysisError(f"calls of the recursive printer with an (expression, operator) pair: {n_sites} found, at least 2 expected")
+    return r
+
+
+# =============================================================================================================== C13.returns
+import builtins as _builtins
+
+PRE = "models.pddl_precondition"
+TEXT_RESULT_MODULES = (NS, PRE)          # where the simplified text is built and handed on
+
+
+def _own_scope_nodes(root: ast.AST):
+    """the nodes of an expression / statement header that are evaluated in the function's own scope: nested functions, lambdas and
+    class bodies are other scopes; comprehensions are walked with the names they bind"""
+    def walk(n, bound: frozenset):
+        if isinstance(n, (ast.FunctionDef, ast.AsyncFunctionDef, ast.Lambda, ast.ClassDef)):
+            return
+        if isinstance(n, (ast.ListComp, ast.SetComp, ast.GeneratorExp, ast.DictComp)):
+            b = set(bound)
+            for i, g_ in enumerate(n.generators):
+                yield from walk(g_.iter, frozenset(b))
+                b |= C.target_names(g_.target)
+                for c_ in g_.ifs:
+                    yield from walk(c_, frozenset(b))
+            for part in ((n.key, n.value) if isinstance(n, ast.DictComp) else (n.elt,)):
+                yield from walk(part, frozenset(b))
+            return
+        yield n, bound
+        for ch in ast.iter_child_nodes(n):
+            yield from walk(ch, bound)
+    yield from walk(root, frozenset())
+
+
+def _local_names(fn: ast.FunctionDef) -> Set[str]:
+    a = fn.args
+    out = {x.arg for x in a.posonlyargs + a.args + a.kwonlyargs}
+    if a.vararg:
+        out.add(a.vararg.arg)
+    if a.kwarg:
+        out.add(a.kwarg.arg)
+    declared: Set[str] = set()
+
+    def visit(n):
+        for ch in ast.iter_child_nodes(n):
+            if isinstance(ch, (ast.FunctionDef, ast.AsyncFunctionDef, ast.ClassDef)):
+                out.add(ch.name)
+                continue
+            if isinstance(ch, ast.Lambda):
+                continue
+            if isinstance(ch, (ast.ListComp, ast.SetComp, ast.GeneratorExp, ast.DictComp)):
+                out.update(w.target.id for w in ast.walk(ch) if isinstance(w, ast.NamedExpr) and isinstance(w.target, ast.Name))
+                continue
+            if isinstance(ch, ast.Name) and isinstance(ch.ctx, (ast.Store, ast.Del)):
+                out.add(ch.id)
+            elif isinstance(ch, ast.ExceptHandler) and ch.name:
+                out.add(ch.name)
+            elif isinstance(ch, (ast.Import, ast.ImportFrom)):
+                out.update((x.asname or x.name).split(".")[0] for x in ch.names)
+            elif isinstance(ch, (ast.Global, ast.Nonlocal)):
+                declared.update(ch.names)
+            visit(ch)
+
+    for st in fn.body:
+        visit(ast.Module(body=[st], type_ignores=[]))
+    return out - declared
+
+
+def _module_level_names(m) -> Set[str]:
+    out: Set[str] = set(m.defs) | set(m.imports)
+    for n in ast.walk(m.tree):
+        if isinstance(n, (ast.FunctionDef, ast.AsyncFunctionDef, ast.ClassDef, ast.Lambda)):
+            continue
+    def visit(n):
+        for ch in ast.iter_child_nodes(n):
+            if isinstance(ch, (ast.FunctionDef, ast.AsyncFunctionDef, ast.ClassDef)):
+                out.add(ch.name)
+                continue
+            if isinstance(ch, ast.Name) and isinstance(ch.ctx, ast.Store):
+                out.add(ch.id)
+            elif isinstance(ch, (ast.Import, ast.ImportFrom)):
+                out.update((x.asname or x.name).split(".")[0] for x in ch.names)
+            visit(ch)
+    visit(m.tree)
+    return out
+
+
+def _maydef_forward(g: C.CFG, params: Set[str]) -> Dict[int, Set[str]]:
+    """for every CFG node the names that MAY have been bound when the node is reached for the first time: definitions are propagated
+    along forward edges only (an edge from the body of a loop back to its head is not followed)"""
+    def inside(n: int, head: int) -> bool:
+        cur = g.loop_of.get(n)
+        while cur is not None:
+            if cur == head:
+                return True
+            cur = g.loop_of.get(cur)
+        return False
+
+    def binds(st) -> Set[str]:
+        if st is None:
+            return set()
+        out = set(C.defs_of(st))
+        if isinstance(st, (ast.FunctionDef, ast.AsyncFunctionDef, ast.ClassDef)):
+            out.add(st.name)
+        elif isinstance(st, (ast.Import, ast.ImportFrom)):
+            out.update((x.asname or x.name).split(".")[0] for x in st.names)
+        elif isinstance(st, ast.ExceptHandler) and st.name:
+            out.add(st.name)
+        h = C.header(st)
+        if h is not None and not isinstance(st, (ast.FunctionDef, ast.AsyncFunctionDef, ast.ClassDef)):
+            out.update(w.target.id for w in ast.walk(h) if isinstance(w, ast.NamedExpr) and isinstance(w.target, ast.Name))
+        return out
+
+    live = C.reachable_from(g, g.entry)
+    IN: Dict[int, Set[str]] = {n: set() for n in g.nodes()}
+    OUT: Dict[int, Set[str]] = {n: set() for n in g.nodes()}
+    OUT[g.entry] = set(params)
+    changed = True
+    while changed:
+        changed = False
+        for n in g.nodes():
+            if n == g.entry or n not in live:
+                continue
+            new_in: Set[str] = set()
+            for p_, _l in g.pred[n]:
+                if p_ not in live or (g.kind[n] == "loop" and inside(p_, n)):
+                    continue
+                new_in |= OUT[p_]
+            new_out = new_in | binds(g.stmt[n])
+            if new_in != IN[n] or new_out != OUT[n]:
+                IN[n], OUT[n] = new_in, new_out
+                changed = True
+    return IN
+
+
+def rule_returns(repo: Repo, rid: str = "C13.returns") -> RuleResult:
+    """two conditions without which a function that has to hand on the simplified text cannot do so: (1) a function declared `-> str` has no
+    path that leaves it without a return statement (it would hand on None, printed as 'None' or dropped by the caller's truth test);
+    (2) no statement that is always executed reads a local name before any assignment to it on every path from the entry (or a name that
+    is neither a local, a global nor a builtin): the call raises NameError / UnboundLocalError whenever that statement is reached"""
+    r = RuleResult(rid, "functions declared `-> str` return on every path; no name is read before it is bound on every path",
+                   "yields text that the reader accepts (not None, no exception) for every condition")
+    mods = [repo.module(m) for m in TEXT_RESULT_MODULES]
+    for f in repo.all_funcs():
+        if f.mod not in mods or getattr(f.node, "synthesised", False):
+            continue
+        fn = f.node
+        g = C.cfg_of(fn)
+        live = C.reachable_from(g, g.entry)
+        is_gen = any(isinstance(x, (ast.Yield, ast.YieldFrom)) for x in ast.walk(fn))
+        ret = fn.returns
+        declared_str = (isinstance(ret, ast.Name) and ret.id == "str") or (isinstance(ret, ast.Constant) and ret.value == "str")
+        if declared_str and not is_gen:
+            r.site(f.qn + " [returns text]")
+            ends = [p_ for p_, _l in g.pred[g.exit] if p_ in live and g.kind[p_] != "return"]
+            if ends:
+                st = g.stmt[ends[0]]
+                r.fail(Finding(rid, f, "falls-off-the-end", f"{f.qn.split('::')[-1]} is declared `-> str` but a path leaves it without a return statement (after "
+                               f"{unparse(C.header(st), 50) if st is not None and C.header(st) is not None else 'the entry'}): the caller receives None", node=st))
+            else:
+                r.ok({"function": f.qn, "returns_on_every_path": True})
+        # ---- names read before they are bound
+        r.site(f.qn + " [names]")
+        local = _local_names(fn)
+        params = {x for x in local if x in f.params or x in {a_.arg for a_ in ([fn.args.vararg] if fn.args.vararg else []) + ([fn.args.kwarg] if fn.args.kwarg else [])}}
+        globals_ = _module_level_names(f.mod)
+        IN = _maydef_forward(g, params)
+        G = None
+        bad = None
+        for n in g.nodes():
+            st = g.stmt[n]
+            if st is None or n not in live or g.kind[n] == "except" or isinstance(st, ast.ExceptHandler):
+                continue
+            in_handler = False
+            for x in ast.walk(fn):
+                if isinstance(x, ast.Try) and any(st is y for h in x.handlers for y in ast.walk(h)) or \
+                        isinstance(x, ast.Try) and any(st is y for fb in x.finalbody for y in ast.walk(fb)):
+                    in_handler = True
+                    break
+            if in_handler:
+                continue
+            h = C.header(st)
+            if h is None:
+                continue
+            roots = [h]
+            if isinstance(st, ast.AnnAssign):
+                roots = [x for x in (st.value, st.target) if x is not None]
+            elif isinstance(st, (ast.FunctionDef, ast.AsyncFunctionDef, ast.ClassDef)):
+                roots = []
+            for root in roots:
+                for x, bound in _own_scope_nodes(root):
+                    if not isinstance(x, ast.Name) or x.id in bound:
+                        continue
+                    reads = isinstance(x.ctx, ast.Load) or (isinstance(st, ast.AugAssign) and x is st.target)
+                    if not reads:
+                        continue
+                    if x.id in local:
+                        if x.id in IN[n] or x.id in params:
+                            continue
+                        # executed whenever its loops are entered?
+                        always = True
+                        cur = n
+                        while g.loop_of.get(cur) is not None:
+                            head = g.loop_of[cur]
+                            if G is None:
+                                G = L.Guards(f, lambda e: None)
+                            if not L.must_pass_in_loop(G, {}, g.stmt[head], {cur}):
+                                always = False
+                                break
+                            cur = head
+                        if always and bad is None:
+                            bad = (x, st, f"the local name `{x.id}` is read in `{unparse(h, 60)}` before any assignment to it can have been executed: "
+                                          f"UnboundLocalError on the first time the statement is reached")
+                    elif x.id not in globals_ and not hasattr(_builtins, x.id) and repo.lookup(f.mod.name, x.id) is None:
+                        if bad is None:
+                            bad = (x, st, f"the name `{x.id}` read in `{unparse(h, 60)}` is bound nowhere (not a local, not a module-level name, not a builtin): "
+                                          f"NameError whenever the statement is reached")
+        if bad:
+            r.fail(Finding(rid, f, "name-unbound", f"{f.qn.split('::')[-1]}: {bad[2]}", node=bad[1]))
+        else:
+            r.ok({"function": f.qn, "names_bound": True})
+    r.require_sites(4)
+    return r
+
+
+# =============================================================================================================== C13.operands
+OUTER_PARENTHESES = (1, -1)       # to_mathematical() wraps a compound node in one pair of parentheses: exactly these are cut off before the split
+PARSERS = ("arg0:sympify", "arg0:parse_expr", "arg0:S", "arg0:parse")     # what turns text into a sympy expression
+PRINTER = "convert_expr_to_pddl"
+ZERO_FLAG = "should_remove_trailing_zeros"
+
+
+def _small_int(text: str) -> Optional[int]:
+    """the value of a slice bound written as integer arithmetic on literals (`1`, `-1`, `1 + 1`); None for anything else"""
+    try:
+        tree = ast.parse(text.strip(), mode="eval").body
+    except SyntaxError:
+        return None
+
+    def ev(n) -> Optional[int]:
+        if isinstance(n, ast.Constant) and isinstance(n.value, int) and not isinstance(n.value, bool):
+            return n.value
+        if isinstance(n, ast.UnaryOp) and isinstance(n.op, (ast.USub, ast.UAdd)):
+            v = ev(n.operand)
+            return None if v is None else (-v if isinstance(n.op, ast.USub) else v)
+        if isinstance(n, ast.BinOp) and isinstance(n.op, (ast.Add, ast.Sub, ast.Mult)):
+            a, b = ev(n.left), ev(n.right)
+            if a is None or b is None:
+                return None
+            return a + b if isinstance(n.op, ast.Add) else a - b if isinstance(n.op, ast.Sub) else a * b
+        return None
+    return ev(tree)
+
+
+def _net_slice(path, upto=SPLITTERS) -> Optional[Tuple[int, int]]:
+    """(characters cut off at the front, at the end) by the constant slices a text passes before it is split; None when another
+    operation changes the text or a bound is not a constant of the right sign"""
+    lo, hi = 0, 0
+    for st in path[1:]:
+        if st in upto:
+            return lo, hi
+        if st.startswith("slice:"):
+            parts = st.split(":")
+            if len(parts) != 3:
+                return None
+            a, b = parts[1], parts[2]
+            a_ = _small_int(a) if a not in ("", "None") else 0
+            b_ = _small_int(b) if b not in ("", "None") else 0
+            if a_ is None or b_ is None:
+                return None
+            if a_ < 0 or b_ > 0:
+                return None
+            lo, hi = lo + a_, hi + b_
+        elif st.startswith(("call:strip", "call:lstrip", "call:rstrip", "call:replace", "call:removeprefix", "call:removesuffix", "item", "call:partition", "call:format")):
+            return None
+    return lo, hi
+
+
+def _front_end_slices(repo: Repo, f: FuncInfo, p, text_param: str, exprs: List[ast.AST]) -> Set[Optional[Tuple[int, int]]]:
+    out: Set[Optional[Tuple[int, int]]] = set()
+    for e in exprs:
+        try:
+            tr = U.norm_paths(repo, p.trace(e))
+        except KeyError:
+            continue
+        for x in tr:
+            if x[0] == f"param:{text_param}" and U.is_main_flow(x, CARRIERS) and any(st in SPLITTERS for st in x):
+                out.add(_net_slice(x))
+    return out
+
+
+def _printer_calls(repo: Repo, f: FuncInfo) -> List[ast.Call]:
+    return [c for c in L.calls_in(f.node) if U.ext_callee(repo, f, c) == PRINTER]
+
+
+def _const_of_arg(repo: Repo, p, e: Optional[ast.AST]):
+    """('const', value) when every provenance path of the argument is one constant, ('default',) when it is not passed, else ('other',)"""
+    if e is None:
+        return ("default",)
+    try:
+        tr = p.trace(e)
+    except KeyError:
+        return ("other",)
+    if tr and all(len(x) == 1 and x[0].startswith("const:") for x in tr) and len({x[0] for x in tr}) == 1:
+        return ("const", next(iter(tr))[0][6:])
+    return ("other",)
+
+
+DEFAULT_INTERNAL_SLICE = {"simplify_inequality": OUTER_PARENTHESES, "simplify_equality": (0, 0)}     # who cuts the outer parentheses off today
+
+
+def _caller_slices(repo: Repo, kind: str) -> Set[Optional[Tuple[int, int]]]:
+    """what the callers of a front-end cut off to_mathematical() before they hand the text over (None: not a chain of constant slices)"""
+    out: Set[Optional[Tuple[int, int]]] = set()
+    callee = repo.func(f"{NS}::{kind}")
+    for h in repo.all_funcs():
+        if getattr(h.node, "synthesised", False) or h.name == kind or not any(U.ext_callee(repo, h, c) == kind for c in L.calls_in(h.node)):
+            continue
+        f = L.fn(repo, f"{h.cls}.{h.name}" if h.cls else f"{h.mod.short}::{h.name}")
+        p = L.prov(repo, f)
+        for c in L.calls_in(f.node):
+            if U.ext_callee(repo, f, c) != kind:
+                continue
+            a0 = L.arg_of(c, callee, callee.params[0], 0)
+            try:
+                tr = U.norm_paths(repo, p.trace(a0)) if a0 is not None else set()
+            except KeyError:
+                tr = set()
+            nets = set()
+            for x in tr:
+                if "call:to_mathematical" in x and U.is_main_flow(x):
+                    i = len(x) - 1 - list(reversed(x)).index("call:to_mathematical")
+                    nets.add(_net_slice(("root",) + tuple(x[i + 1:]), upto=()))
+            out |= nets or {None}
+    return out
+
+
+def rule_operands(repo: Repo, rid: str = "C13.operands") -> RuleResult:
+    """how the comparison text reaches sympy and the printer in simplify_inequality / simplify_equality, by provenance of the arguments:
+    the text is split after exactly the outer parentheses are cut off (inequality) / as it is (equality: the caller cuts them); the first
+    argument of transform_expression is text, the second the symbols of an earlier call; text reaches Eq only through a parser; the side
+    printed second (right-hand side) is printed with zero-dropping off; the loop over the assumptions is not left early and substitutes
+    into both sides on every path; an always-true equation is told apart before .lhs / .rhs are read"""
+    r = RuleResult(rid, "comparison front-ends: slices of the comparison text, argument roles of transform_expression / Eq, zero-dropping off on the right-hand "
+                        "side, every assumption substituted into both sides, the always-true case guarded",
+                   "means the same as the original; valid PDDL; omitted only if implied")
+    conv = repo.func(f"{NS}::{PRINTER}")
+    for fname, want_slice, side_of in (("simplify_inequality", OUTER_PARENTHESES, "split"), ("simplify_equality", (0, 0), "eq")):
+        f = _fn(repo, f"{NS}::{fname}")
+        p = L.prov(repo, f)
+        if not f.params:
+            raise AnalysisError(f"{fname}: no parameters")
+        text_param = f.params[0]
+        calls = _printer_calls(repo, f)
+        r.site(f"{f.qn} [printer calls]")
+        if not calls:
+            r.fail(Finding(rid, f, f"{fname}:not-printed", f"{fname} never hands a side to {PRINTER}"))
+            continue
+        # ---- slices
+        r.site(f"{f.qn} [operand text]")
+        slices = _front_end_slices(repo, f, p, text_param, [c.args[0] for c in calls if c.args])
+        known = {x for x in slices if x is not None}
+        if not slices or None in slices:
+            r.notes.append(f"{fname}: the way the text reaches split() is not a chain of constant slices -- not decided")
+        elif known == {want_slice}:
+            r.ok({"function": fname, "cut_off_before_split": want_slice})
+        elif len(known) == 1 and (lambda cs: cs and None not in cs and all((a + next(iter(known))[0], b + next(iter(known))[1]) == OUTER_PARENTHESES for a, b in cs))(_caller_slices(repo, fname)):
+            # the outer parentheses are cut off once, by the callers instead of here (or the other way round)
+            r.ok({"function": fname, "cut_off_before_split": sorted(known), "callers": "cut off the rest"})
+        else:
+            r.fail(Finding(rid, f, f"{fname}:operand-slice", f"{fname} cuts {sorted(known)} (front, end) characters off the comparison text before it is split; "
+                           f"{want_slice} are the outer parentheses -- an operand loses / keeps a character", node=calls[0]))
+        # ---- right-hand side printed with zero-dropping off
+        r.site(f"{f.qn} [right-hand side]")
+        rights = []
+        for c in calls:
+            if not c.args:
+                continue
+            try:
+                tr = U.norm_paths(repo, p.trace(c.args[0]))
+            except KeyError:
+                continue
+            main = [x for x in tr if U.is_main_flow(x, CARRIERS)]
+            if side_of == "split":
+                sides = {_split_side(x) for x in main if x[0] == f"param:{text_param}"} - {None}
+                if sides == {1}:
+                    rights.append(c)
+            else:
+                kinds = set()
+                for x in main:
+                    for i, st in enumerate(x):
+                        if st in ("attr:lhs", "attr:rhs"):
+                            kinds.add(st[5:])
+                if kinds == {"rhs"}:
+                    rights.append(c)
+        if not rights:
+            r.notes.append(f"{fname}: the call that prints the right-hand side is not recognised -- not decided")
+        else:
+            bad = None
+            for c in rights:
+                got = _const_of_arg(repo, p, L.arg_of(c, conv, ZERO_FLAG))
+                if got != ("const", "False"):
+                    bad = (c, got)
+            if bad:
+                r.fail(Finding(rid, f, f"{fname}:right-side-zero-dropping", f"{fname} prints the right-hand side with {ZERO_FLAG} "
+                               f"{'at its default (True)' if bad[1] == ('default',) else 'not the constant False'}: a right-hand side that rounds to zero is printed as 'None'", node=bad[0]))
+            else:
+                r.ok({"function": fname, "right_side_zero_dropping": False})
+        # ---- argument roles of transform_expression
+        tcalls = [c for c in L.calls_in(f.node) if U.ext_callee(repo, f, c) == "transform_expression"]
+        te = repo.func(f"{NS}::transform_expression")
+        for c in tcalls:
+            r.site(L.site(f, c, "transform_expression arguments"))
+            a0 = L.arg_of(c, te, te.params[0], 0)
+            a1 = L.arg_of(c, te, te.params[1], 1) if len(te.params) > 1 else None
+            is_symbols = lambda x: len(x) >= 2 and x[-1] == "unpack:1" and x[-2].endswith(":transform_expression")
+            try:
+                t0 = U.norm_paths(repo, p.trace(a0)) if a0 is not None else set()
+                t1 = U.norm_paths(repo, p.trace(a1)) if a1 is not None else set()
+            except KeyError:
+                r.notes.append(f"{fname}: arguments of {unparse(c, 50)} not traced")
+                continue
+            t0 = {x for x in t0 if not x[0].startswith("const:")} or t0
+            if t0 and all(is_symbols(x) for x in t0) or (t1 and any(x[0].startswith("param:") for x in t1) and not any(is_symbols(x) for x in t1)
+                                                         and all(not x[0].startswith("const:None") for x in t1) and any(is_symbols(x) for x in t0)):
+                r.fail(Finding(rid, f, f"{fname}:transform-arguments", f"{unparse(c, 70)}: the first argument of transform_expression is the symbol table of an earlier "
+                               f"call, not the text to transform (arguments exchanged)", node=c))
+            else:
+                r.ok({"call": unparse(c, 60)})
+        # ---- text reaches Eq only through a parser
+        for c in [c for c in L.calls_in(f.node) if U.ext_callee(repo, f, c) in ("Eq", "Equality")]:
+            r.site(L.site(f, c, "equation operands"))
+            bad = None
+            for i, a in enumerate(c.args[:2]):
+                try:
+                    tr = U.norm_paths(repo, p.trace(a))
+                except KeyError:
+                    continue
+                for x in tr:
+                    if (x[0].startswith("param:") and U.is_main_flow(x, CARRIERS)) and not any(st in PARSERS for st in x) and any(st in SPLITTERS for st in x):
+                        bad = (i, x)
+            if bad:
+                r.fail(Finding(rid, f, f"{fname}:equation-operand-text", f"{unparse(c, 60)}: operand {bad[0]} is a piece of the split text that no parser "
+                               f"(sympify / parse_expr) has turned into an expression: Eq raises SympifyError", node=c))
+            else:
+                r.ok({"call": unparse(c, 60)})
+    # ---- the loop over the assumptions
+    f = _fn(repo, f"{NS}::simplify_inequality")
+    p = L.prov(repo, f)
+    g = C.cfg_of(f.node)
+    if len(f.params) >= 3:
+        aparam = f.params[2]
+        loops = []
+        for n in g.nodes():
+            st = g.stmt[n]
+            if g.kind[n] == "loop" and isinstance(st, ast.For):
+                try:
+                    tr = p.trace(st.iter)
+                except KeyError:
+                    continue
+                if tr and all(x[0] == f"param:{aparam}" and all(s_ in ("arg0:list", "arg0:tuple", "arg0:iter", "call:copy") or s_.startswith("slice:") for s_ in x[1:]) for x in tr):
+                    loops.append(st)
+        r.site(f"{f.qn} [assumptions]")
+        if not loops:
+            r.notes.append("simplify_inequality: no loop over the assumptions recognised -- not decided")
+        for loop in loops:
+            G = L.Guards(f, lambda e: None)
+            if L.leaves_loop_early(G, {}, loop):
+                r.fail(Finding(rid, f, "simplify_inequality:assumptions-left-early", "the loop over the assumptions can be left before the last assumption "
+                               "(break / return inside it): the remaining equalities are not substituted", node=loop))
+                continue
+            # statements of the loop that substitute into the left / into the right side
+            by_side: Dict[int, Set[int]] = {0: set(), 1: set()}
+            unclear = False
+            for c in L.calls_in(loop):
+                if isinstance(c.func, ast.Attribute) and c.func.attr in ("subs", "xreplace", "replace"):
+                    try:
+                        tr = U.norm_paths(repo, p.trace(c.func.value))
+                    except KeyError:
+                        continue
+                    sides = {_split_side(x) for x in tr if x[0] == f"param:{f.params[0]}" and U.is_main_flow(x, CARRIERS)}
+                    n = g.node_containing(c)
+                    if n is not None and sides and sides <= {0, 1}:
+                        for k in sides:
+                            by_side[k].add(n)
+                    elif sides:
+                        unclear = True
+                    if {_split_side(x) for x in tr if x[0] == f"param:{f.params[0]}"} - sides - {None}:
+                        unclear = True          # a side also arrives as a secondary argument (a record / tuple of both sides is walked)
+            missing = [("left", "right")[k] for k in (0, 1) if not by_side[k] or not L.must_pass_in_loop(G, {}, loop, by_side[k])]
+            if missing and (unclear or not (by_side[0] or by_side[1])):
+                r.notes.append("simplify_inequality: no substitution into a side recognised inside the loop over the assumptions -- not decided")
+            elif missing:
+                r.fail(Finding(rid, f, "simplify_inequality:assumption-not-substituted", f"a turn of the loop over the assumptions can end without substituting the "
+                               f"assumption into the {' and the '.join(missing)} side", node=loop))
+            else:
+                r.ok({"assumptions": "substituted into both sides on every path"})
+    # ---- the always-true equation
+    f = _fn(repo, f"{NS}::simplify_equality")
+    p = L.prov(repo, f)
+    r.site(f"{f.qn} [always true]")
+
+    def is_simplified_eq(e: ast.AST) -> bool:
+        try:
+            tr = U.norm_paths(repo, p.trace(e))
+        except KeyError:
+            return False
+        main = [x for x in tr if x[0].startswith("param:") and U.is_main_flow(x, CARRIERS)]
+        return bool(main) and all(x[-1] == "arg0:simplify" and any(st in ("arg0:Eq", "arg1:Eq") for st in x) for x in main)
+
+    tests_on_it: List[ast.AST] = []
+
+    def matcher(e: ast.AST) -> Optional[str]:
+        if isinstance(e, ast.Call) and isinstance(e.func, ast.Name) and e.func.id == "isinstance" and len(e.args) == 2 and is_simplified_eq(e.args[0]):
+            names = {_class_name(x) for x in (e.args[1].elts if isinstance(e.args[1], (ast.Tuple, ast.List)) else [e.args[1]])}
+            return "true" if names & {"BooleanTrue", "BooleanAtom"} else None
+        if isinstance(e, ast.Compare) and len(e.ops) == 1 and isinstance(e.ops[0], (ast.Eq, ast.Is, ast.NotEq, ast.IsNot)):
+            for x, y in ((e.left, e.comparators[0]), (e.comparators[0], e.left)):
+                if is_simplified_eq(x) and ((isinstance(y, ast.Constant) and y.value is True) or (isinstance(y, ast.Attribute) and y.attr == "true")):
+                    return "true" if isinstance(e.ops[0], (ast.Eq, ast.Is)) else "!true"
+        return None
+
+    pm = L.parents_of(f)
+    for n in ast.walk(f.node):
+        if isinstance(n, (ast.If, ast.IfExp, ast.While)):
+            for x in ast.walk(n.test):
+                if isinstance(x, ast.expr) and not isinstance(x, ast.Constant) and is_simplified_eq(x):
+                    tests_on_it.append(n.test)
+                    break
+    G = _Guards(repo, f, matcher)
+    g = G.g
+    side_reads = [n for n in ast.walk(f.node) if isinstance(n, ast.Attribute) and n.attr in ("lhs", "rhs") and isinstance(n.ctx, ast.Load) and is_simplified_eq(n.value)]
+    if not side_reads:
+        r.notes.append("simplify_equality: no read of .lhs / .rhs of the simplified equation recognised -- not decided")
+    elif "true" not in G.atoms_seen:
+        if tests_on_it:
+            r.notes.append(f"simplify_equality: the test {unparse(tests_on_it[0], 60)} on the simplified equation is not interpreted -- not decided")
+        else:
+            r.fail(Finding(rid, f, "simplify_equality:always-true-not-guarded", "the sides of the simplified equation are read without asking whether sympy found the "
+                           "equation always true (BooleanTrue has no .lhs): an implied condition raises AttributeError instead of being omitted", node=side_reads[0]))
+    else:
+        seen_t = G.reach({"true": True})
+        seen_f = G.reach({"true": False})
+        reads_t = [n for n in side_reads if G.reaches_expr({"true": True}, n, seen=seen_t)]
+        rets_f = [g.stmt[n] for n in seen_f if g.kind[n] == "return"]
+        none_f = [st for st in rets_f if st.value is None or (isinstance(st.value, ast.Constant) and st.value.value in (None, ""))]
+        reads_f = [n for n in side_reads if G.reaches_expr({"true": False}, n, seen=seen_f)]
+        if reads_t:
+            r.fail(Finding(rid, f, "simplify_equality:always-true-not-guarded", "when sympy finds the equation always true its .lhs / .rhs are still read (AttributeError): "
+                           "the implied condition cannot be omitted", node=reads_t[0]))
+        elif none_f or not reads_f:
+            r.fail(Finding(rid, f, "simplify_equality:equation-dropped", "an equation that sympy does NOT find always true is answered with None / its sides are never "
+                           "printed: the condition is omitted although nothing implies it", node=(none_f[0] if none_f else side_reads[0])))
+        else:
+            r.ok({"always_true": "guarded before .lhs / .rhs are read", "other_equations": "printed"})
+    r.require_sites(6)
+    return r
+
+
+# =============================================================================================================== C13.conditions
+SINK_METHODS = ("append", "add", "extend", "insert", "appendleft", "update")      # a value put into a collection
+NE = "models.numerical_expression"
+
+
+def _spec_of(f: FuncInfo) -> str:
+    return f"{f.cls}.{f.name}" if f.cls else f"{f.mod.short}::{f.name}"
+
+
+def _functions_calling(repo: Repo, names: Set[str], method: bool = False) -> List[FuncInfo]:
+    out = []
+    for f in repo.all_funcs():
+        if getattr(f.node, "synthesised", False) or f.name in names:
+            continue
+        for c in L.calls_in(f.node):
+            nm = c.func.attr if (method and isinstance(c.func, ast.Attribute)) else (U.ext_callee(repo, f, c) if not method else None)
+            if nm in names:
+                out.append(f)
+                break
+    return out
+
+
+def _in_test(pm, e: ast.AST) -> bool:
+    cur = e
+    while cur in pm and not isinstance(cur, ast.stmt):
+        par = pm[cur]
+        if isinstance(par, (ast.If, ast.While, ast.IfExp, ast.Assert)) and par.test is cur:
+            return True
+        if isinstance(par, ast.comprehension) and any(cur is c for c in par.ifs):
+            return True
+        cur = par
+    return False
+
+
+def _consumers(f: FuncInfo, p, g, is_value) -> Set[int]:
+    """CFG nodes of the statements that hand a value on for good: `return` / `yield` of it, or putting it into a collection that flows
+    to the result -- for the expressions selected by is_value, outside of tests"""
+    pm = L.parents_of(f)
+    out: Set[int] = set()
+    for e in ast.walk(f.node):
+        if not isinstance(e, (ast.Name, ast.Call, ast.JoinedStr, ast.BinOp)) or (isinstance(e, ast.Name) and not isinstance(e.ctx, ast.Load)):
+            continue
+        if not is_value(e) or _in_test(pm, e):
+            continue
+        st = e
+        while st in pm and not isinstance(st, ast.stmt):
+            st = pm[st]
+        if not isinstance(st, ast.stmt):
+            continue
+        terminal = isinstance(st, ast.Return) or (isinstance(st, ast.Expr) and isinstance(st.value, (ast.Yield, ast.YieldFrom))) or \
+            (isinstance(st, ast.Expr) and isinstance(st.value, ast.Call) and isinstance(st.value.func, ast.Attribute) and st.value.func.attr in SINK_METHODS) or \
+            (isinstance(st, ast.AugAssign) and isinstance(st.op, (ast.Add, ast.BitOr)) and isinstance(st.target, ast.Name))
+        if terminal and U.flows_to_return(f, e):
+            n = g.node_of(st)
+            if n is not None:
+                out.add(n)
+    return out
+
+
+def _origin_calls(f: FuncInfo, g, e: ast.AST, depth: int = 0) -> Optional[Set[int]]:
+    """ids of the call expressions a local name stands for: every definition that reaches the use is `name = <call>` or a copy of such a
+    name; None when some definition is anything else"""
+    if isinstance(e, ast.Call):
+        return {id(e)}
+    if not isinstance(e, ast.Name) or depth > 4:
+        return None
+    n = g.node_containing(e)
+    if n is None:
+        return None
+    defs = L.rd_of(f).defs_reaching(n, e.id)
+    if not defs:
+        return None
+    out: Set[int] = set()
+    for d in defs:
+        st = g.stmt[d]
+        v = None
+        if d != g.entry and isinstance(st, ast.Assign) and len(st.targets) == 1 and isinstance(st.targets[0], ast.Name):
+            v = st.value
+        elif d != g.entry and isinstance(st, ast.AnnAssign) and isinstance(st.target, ast.Name):
+            v = st.value
+        sub = _origin_calls(f, g, v, depth + 1) if v is not None else None
+        if sub is None:
+            return None
+        out |= sub
+    return out
+
+
+def _passes(G, val, g, start: int, targets: Set[int]) -> bool:
+    """under the valuation every way on from `start` passes one of the targets before the turn of its loop / the function ends"""
+    if start in targets:
+        return True
+    head = g.loop_of.get(start)
+    seen = G.reach(val, avoid=targets, start=start)
+    for n in seen:
+        if n == g.exit or (head is not None and n == head):
+            return False
+    return True
+
+
+def rule_conditions(repo: Repo, rid: str = "C13.conditions") -> RuleResult:
+    """where the conditions of a precondition are handed to simplify_equality / simplify_inequality (guard valuation over `operator == '='`,
+    `result is truthy`, `elimination is None`): an equality goes to simplify_equality as to_mathematical() without exactly the outer
+    parentheses, any other condition to simplify_inequality whole and with its own operator; what the call returns is handed on (returned /
+    yielded / collected) on every path on which it is truthy; the loop over the conditions is not left early; an elimination that is None
+    is not unpacked and one that is not None is collected as an assumption on every path"""
+    r = RuleResult(rid, "every numeric condition reaches exactly one of simplify_equality / simplify_inequality (whole, right operator), its result reaches the "
+                        "output on every path, usable eliminations become assumptions, None eliminations are not unpacked",
+                   "a condition is omitted only if it is implied by the ones kept")
+    anchor = repo.func("Precondition.print")
+    internal: Dict[str, Optional[Tuple[int, int]]] = {}
+    for fname in ("simplify_equality", "simplify_inequality"):
+        f0 = _fn(repo, f"{NS}::{fname}")
+        sl = _front_end_slices(repo, f0, L.prov(repo, f0), f0.params[0], [c.args[0] for c in _printer_calls(repo, f0) if c.args]) if f0.params else set()
+        internal[fname] = next(iter(sl)) if len(sl) == 1 and None not in sl else None
+    callers = _functions_calling(repo, {"simplify_equality", "simplify_inequality"})
+    r.site(anchor.qn + " [simplification calls]")
+    kinds_called = {U.ext_callee(repo, h, c) for h in callers for c in L.calls_in(h.node)} & {"simplify_equality", "simplify_inequality"}
+    for fname in ("simplify_equality", "simplify_inequality"):
+        if fname not in kinds_called:
+            r.fail(Finding(rid, anchor, f"{fname}:never-called", f"no function of the library hands a condition to {fname}: "
+                           f"{'equalities' if fname.endswith('equality') and 'in' not in fname else 'inequalities'} are never simplified / printed"))
+    if not kinds_called:
+        return r
+    r.ok({"callers": sorted(h.qn for h in callers)})
+    for h in callers:
+        f = L.fn(repo, _spec_of(h))
+        p = L.prov(repo, f)
+        g = C.cfg_of(f.node)
+        pm0 = L.parents_of(f)
+
+        def in_other_scope(e) -> bool:
+            cur = e
+            while cur in pm0:
+                cur = pm0[cur]
+                if isinstance(cur, (ast.Lambda, ast.FunctionDef)) and cur is not f.node:
+                    return True
+            return False
+        calls = {k: [c for c in L.calls_in(f.node) if U.ext_callee(repo, f, c) == k and not in_other_scope(c)] for k in ("simplify_equality", "simplify_inequality")}
+        if any(U.ext_callee(repo, f, c) in calls and in_other_scope(c) for c in L.calls_in(f.node)):
+            r.notes.append(f"{f.qn}: a simplification call inside a lambda / nested function is not followed -- not decided")
+
+        def paths(e):
+            try:
+                return U.norm_paths(repo, p.trace(e))
+            except KeyError:
+                return set()
+
+        def is_operator(e) -> bool:
+            tr = [x for x in paths(e) if not x[0].startswith(("const:", "builtin:"))]
+            return bool(tr) and all(len(x) >= 3 and x[-2:] == ("attr:root", "attr:value") for x in tr)
+
+        all_call_ids = {id(c) for cs in calls.values() for c in cs}
+
+        def is_result(e) -> bool:
+            oc = _origin_calls(f, g, e) if isinstance(e, ast.Name) else None
+            return bool(oc) and oc <= all_call_ids
+
+        def matcher(e: ast.AST) -> Optional[str]:
+            if isinstance(e, ast.Compare) and len(e.ops) == 1:
+                o = e.ops[0]
+                for x, y in ((e.left, e.comparators[0]), (e.comparators[0], e.left)):
+                    if isinstance(o, (ast.Eq, ast.NotEq)) and isinstance(y, ast.Constant) and y.value == "=" and is_operator(x):
+                        return "eq" if isinstance(o, ast.Eq) else "!eq"
+                    if isinstance(o, (ast.Is, ast.IsNot, ast.Eq, ast.NotEq)) and isinstance(y, ast.Constant) and y.value is None and isinstance(x, ast.Name) and is_result(x):
+                        return "!res" if isinstance(o, (ast.Is, ast.Eq)) else "res"
+                if isinstance(o, (ast.In, ast.NotIn)) and is_operator(e.left) and isinstance(e.comparators[0], (ast.Tuple, ast.List, ast.Set)) \
+                        and [getattr(x, "value", None) for x in e.comparators[0].elts] == ["="]:
+                    return "eq" if isinstance(o, ast.In) else "!eq"
+            if isinstance(e, ast.Name) and isinstance(e.ctx, ast.Load) and is_result(e):
+                return "res"
+            return None
+
+        G = _Guards(repo, f, matcher)
+        both = bool(calls["simplify_equality"]) and bool(calls["simplify_inequality"])
+        se, si = repo.func(f"{NS}::simplify_equality"), repo.func(f"{NS}::simplify_inequality")
+        for kind, cs in calls.items():
+            callee = se if kind == "simplify_equality" else si
+            for c in cs:
+                r.site(L.site(f, c, kind))
+                problems: List[Tuple[str, str]] = []
+                # -- the text handed over
+                a0 = L.arg_of(c, callee, callee.params[0], 0)
+                nets = set()
+                for x in paths(a0) if a0 is not None else ():
+                    if "call:to_mathematical" in x and U.is_main_flow(x):
+                        i = len(x) - 1 - list(reversed(x)).index("call:to_mathematical")
+                        nets.add(_net_slice(("root",) + tuple(x[i + 1:]), upto=()))
+                if nets and None not in nets and internal[kind] is not None:
+                    total = {(a + internal[kind][0], b + internal[kind][1]) for a, b in nets}
+                    if total != {OUTER_PARENTHESES} and internal[kind] == DEFAULT_INTERNAL_SLICE[kind]:
+                        problems.append(("text-slice", f"{unparse(c, 70)}: together with what {kind} cuts off itself {sorted(total)} (front, end) characters of "
+                                         f"to_mathematical() are removed before the split; {OUTER_PARENTHESES} are the outer parentheses"))
+                elif not nets or None in nets:
+                    r.notes.append(f"{f.qn}: the text handed to {kind} is not to_mathematical() under constant slices -- slice not decided")
+                # -- the operator
+                if kind == "simplify_inequality" and len(callee.params) > 1:
+                    a1 = L.arg_of(c, callee, callee.params[1], 1)
+                    interpreted = lambda x: x[0].startswith(("param:", "const:")) and not any(st.startswith(("call:", "arg", "kw:")) and st not in ("call:__copy__",) for st in x)
+                    if a1 is not None and paths(a1) and not is_operator(a1) and all(interpreted(x) for x in paths(a1)):
+                        problems.append(("operator", f"{unparse(c, 70)}: the operator handed over is not the root value of the condition"))
+                # -- dispatch on the operator
+                n_call = g.node_containing(c)
+                eq_as_value = [x for x in ast.walk(f.node) if isinstance(x, ast.Compare) and matcher(x) in ("eq", "!eq") and not _in_test(L.parents_of(f), x)
+                               and not isinstance(L.parents_of(f).get(x), (ast.BoolOp, ast.UnaryOp))]
+                if eq_as_value:
+                    r.notes.append(f"{f.qn}: the comparison of the operator with '=' is used as a value, not as a test -- dispatch not decided")
+                elif "eq" in G.atoms_seen:
+                    here, other = (True, False) if kind == "simplify_equality" else (False, True)
+                    if n_call in G.reach({"eq": other}) and G.reaches_expr({"eq": other}, c):
+                        problems.append(("dispatch", f"{unparse(c, 60)} is reached for a condition whose operator is {'not ' if kind == 'simplify_equality' else ''}'=': "
+                                         f"{'an inequality is printed as an equation' if kind == 'simplify_equality' else 'an equality is rewritten with its own assumption and lost'}"))
+                    elif not (n_call in G.reach({"eq": here}) and G.reaches_expr({"eq": here}, c)):
+                        problems.append(("dispatch", f"{unparse(c, 60)} is never reached for the conditions it is meant for"))
+                elif both:
+                    r.notes.append(f"{f.qn}: no test of the condition's operator against '=' recognised -- dispatch not decided")
+                # -- the result is handed on
+                def is_this_result(e, c=c):
+                    if e is c:
+                        return True
+                    if isinstance(e, ast.Name) and isinstance(e.ctx, ast.Load):
+                        oc = _origin_calls(f, g, e)
+                        return bool(oc) and oc <= all_call_ids and id(c) in oc
+                    return False
+                cons = _consumers(f, p, g, is_this_result)
+                val = {"eq": kind == "simplify_equality", "res": True}
+                if not cons and U.flows_to_return(f, c):
+                    r.notes.append(f"{f.qn}: how the result of {kind} is handed on is not recognised -- not decided")
+                elif not cons:
+                    problems.append(("result-dropped", f"what {unparse(c, 50)} returns is never returned / yielded / put into the collection that is returned: the simplified "
+                                     f"condition is lost"))
+                elif n_call is not None and n_call in G.reach(val) and not _passes(G, val, g, n_call, cons):
+                    problems.append(("result-dropped", f"a path on from {unparse(c, 50)} with a non-empty result ends the turn without handing the result on "
+                                     f"(the truth test is inverted or skips the collection)"))
+                # -- the walk over the conditions
+                head = g.loop_of.get(n_call) if n_call is not None else None
+                if head is not None and isinstance(g.stmt[head], (ast.For, ast.While)):
+                    for ev_, rv_ in ((True, True), (True, False), (False, True), (False, False)):
+                        if L.leaves_loop_early(G, {"eq": ev_, "res": rv_}, g.stmt[head]):
+                            problems.append(("walk-left-early", f"the loop that hands the conditions to {kind} can be left before the last condition "
+                                             f"(break / return in a turn): the remaining conditions are omitted"))
+                            break
+                if problems:
+                    seen_roles = set()
+                    for role, text in problems:
+                        if role not in seen_roles:
+                            seen_roles.add(role)
+                            r.fail(Finding(rid, f, f"{kind}:{role}", text, node=c))
+                else:
+                    r.ok({"call": unparse(c, 60), "in": f.qn})
+    # ---- eliminations -> assumptions
+    users = _functions_calling(repo, {"extract_eliminated_expressions"}, method=True)
+    r.site(anchor.qn + " [eliminations]")
+    if not users:
+        r.notes.append("no caller of extract_eliminated_expressions: no equality is used for elimination (nothing to decide)")
+    for h in users:
+        f = L.fn(repo, _spec_of(h))
+        p = L.prov(repo, f)
+        g = C.cfg_of(f.node)
+
+        def paths2(e):
+            try:
+                return U.norm_paths(repo, p.trace(e))
+            except KeyError:
+                return set()
+
+        def is_elim(e) -> bool:
+            tr = [x for x in paths2(e) if not x[0].startswith("const:")]
+            return bool(tr) and all(x[-1] == "call:extract_eliminated_expressions" for x in tr)
+
+        def is_operator2(e) -> bool:
+            tr = [x for x in paths2(e) if not x[0].startswith(("const:", "builtin:"))]
+            return bool(tr) and all(len(x) >= 3 and x[-2:] == ("attr:root", "attr:value") for x in tr)
+
+        def matcher2(e: ast.AST) -> Optional[str]:
+            if isinstance(e, ast.Compare) and len(e.ops) == 1:
+                o = e.ops[0]
+                for x, y in ((e.left, e.comparators[0]), (e.comparators[0], e.left)):
+                    if isinstance(o, (ast.Is, ast.IsNot, ast.Eq, ast.NotEq)) and isinstance(y, ast.Constant) and y.value is None and is_elim(x):
+                        return "none" if isinstance(o, (ast.Is, ast.Eq)) else "!none"
+                    if isinstance(o, (ast.Eq, ast.NotEq)) and isinstance(y, ast.Constant) and y.value == "=" and is_operator2(x):
+                        return "eq" if isinstance(o, ast.Eq) else "!eq"
+            if isinstance(e, ast.Name) and isinstance(e.ctx, ast.Load) and is_elim(e):
+                return "!none"
+            return None
+
+        G = _Guards(repo, f, matcher2)
+        pm = L.parents_of(f)
+        ecalls = [c for c in L.calls_in(f.node) if isinstance(c.func, ast.Attribute) and c.func.attr == "extract_eliminated_expressions"]
+        for c in ecalls:
+            r.site(L.site(f, c, "elimination"))
+            unpacks = []
+            for n in ast.walk(f.node):
+                if isinstance(n, ast.Assign) and isinstance(n.targets[0], (ast.Tuple, ast.List)) and is_elim(n.value):
+                    unpacks.append(n)
+                elif isinstance(n, ast.Subscript) and isinstance(n.ctx, ast.Load) and is_elim(n.value):
+                    unpacks.append(n)
+            tests = [n for n in ast.walk(f.node) if isinstance(n, (ast.If, ast.IfExp, ast.While)) and any(isinstance(x, ast.expr) and is_elim(x) for x in ast.walk(n.test))]
+            problems = []
+
+            def caught(u) -> bool:
+                cur = u
+                while cur in pm:
+                    par = pm[cur]
+                    if isinstance(par, ast.Try) and any(cur is y for b_ in par.body for y in ast.walk(b_)):
+                        for h_ in par.handlers:
+                            names = {_class_name(x) for x in (h_.type.elts if isinstance(h_.type, ast.Tuple) else [h_.type])} if h_.type is not None else {"BaseException"}
+                            if names & {"TypeError", "Exception", "BaseException"}:
+                                return True
+                    cur = par
+                return False
+            unpacks = [u for u in unpacks if not caught(u)]
+            if not unpacks:
+                r.notes.append(f"{f.qn}: no unguarded unpacking of the elimination pair recognised -- not decided")
+                continue
+            if "none" not in G.atoms_seen:
+                if tests:
+                    r.notes.append(f"{f.qn}: the test {unparse(tests[0].test, 50)} on the elimination is not interpreted -- not decided")
+                    continue
+                problems.append(("none-unpacked", "the pair returned by extract_eliminated_expressions() is unpacked without asking whether it is None (an equality that "
+                                 "cannot be used for elimination): TypeError, the precondition cannot be printed"))
+            else:
+                seen_n = G.reach({"none": True, "eq": True})
+                hit = [u for u in unpacks if (g.node_containing(u) if not isinstance(u, ast.stmt) else g.node_of(u)) in seen_n
+                       and (isinstance(u, ast.stmt) or G.reaches_expr({"none": True, "eq": True}, u, seen=seen_n))]
+                if hit:
+                    problems.append(("none-unpacked", "when extract_eliminated_expressions() returns None (the equality cannot be used for elimination) the result is still "
+                                     "unpacked: TypeError, the precondition cannot be printed"))
+
+                def is_assumption(e) -> bool:
+                    tr = paths2(e)
+                    return any("call:extract_eliminated_expressions" in x and "call:to_mathematical" in x for x in tr)
+                cons = _consumers(f, p, g, is_assumption)
+                n_call = g.node_containing(c)
+                val = {"none": False, "eq": True}
+                if not cons:
+                    problems.append(("assumption-dropped", "the text `<eliminated> = <replacement>` built from a usable equality is never returned / yielded / collected: "
+                                     "no inequality is simplified under it (or collecting it raises)"))
+                elif n_call is not None and n_call in G.reach(val) and not _passes(G, val, g, n_call, cons):
+                    problems.append(("assumption-dropped", "a path on from a usable elimination (not None) ends the turn without collecting the assumption"))
+            if problems:
+                for role, text in problems:
+                    r.fail(Finding(rid, f, f"elimination:{role}", text, node=c))
+            else:
+                r.ok({"elimination": unparse(c, 60), "in": f.qn})
+    r.require_sites(3)
+    return r
+
+
+# =============================================================================================================== C13.branches
+# the kinds of node the printer tells apart, as a finite abstraction of its argument: (is an atom, is a Pow, exponent)
+NODE_KINDS = {"atom": (True, False, None), "reciprocal": (False, True, -1), "square": (False, True, 2), "cube": (False, True, 3), "sum-or-product": (False, False, None)}
+_RECIPROCAL_TEXT = re.compile(r"\(\s*/\s+1\s")
+_ATOM_CLASS_NAMES = set(NUMBER_CLASSES)
+
+
+_printer_results: Dict[int, tuple] = {}
+
+
+def rule_branches(repo: Repo) -> RuleResult:
+    return _printer_rules(repo)[0]
+
+
+def rule_walk(repo: Repo) -> RuleResult:
+    return _printer_rules(repo)[1]
+
+
+def _printer_rules(repo: Repo, rid: str = "C13.branches", wid: str = "C13.walk"):
+    """guard valuation of convert_expr_to_pddl (private helpers inlined) over the kinds of node it tells apart -- atom / Pow with exponent
+    -1 / 2 / 3 / sum or product: the tests on the node (is_Atom, isinstance / func against Pow, comparisons of .exp with constants, decided
+    arithmetically for the exponent of the kind) leave exactly the branch of that kind reachable: an atom reaches extract_atom and nothing
+    else, a reciprocal reaches the text '(/ 1 ..)' and neither the walk over .args nor the expansion of a power, a square / cube reaches
+    the code that uses the exponent and neither '(/ 1 ..)' nor the walk over .args, a sum / product reaches the walk over .args.  The loop
+    that expands a power runs `exponent + k` times over a text with c factors and adds d factors per turn: c + d * (n + k) == n for n = 2, 3"""
+    r = RuleResult(rid, "each kind of node (atom, x**-1, x**2, x**3, sum / product) reaches its own branch of the printer and no other; the power loop writes "
+                        "exactly `exponent` factors", "text that uses only binary + - * / and denotes the simplified expression")
+    if id(repo) in _printer_results and _printer_results[id(repo)][0] is repo:
+        return _printer_results[id(repo)][1]
+    f = _fn(repo, f"{NS}::convert_expr_to_pddl")
+    p = L.prov(repo, f)
+    if not f.params:
+        raise AnalysisError("convert_expr_to_pddl: no parameters")
+    root = f"param:{f.params[0]}"
+    pm = L.parents_of(f)
+    g = C.cfg_of(f.node)
+
+    def paths(e):
+        try:
+            return {x for x in U.norm_paths(repo, p.trace(e)) if not x[0].startswith(("const:", "builtin:"))}
+        except (KeyError, RecursionError):
+            return set()
+
+    def is_node(e) -> bool:
+        return paths(e) == {(root,)}
+
+    def is_exp(e) -> bool:
+        tr = paths(e)
+        return bool(tr) and tr <= {(root, "attr:exp"), (root, "attr:args", "item:1")}
+
+    def const_int(e):
+        ok, v = repo.fold(e, f.mod.name)
+        if ok and isinstance(v, int) and not isinstance(v, bool):
+            return v
+        if isinstance(e, ast.UnaryOp) and isinstance(e.op, (ast.USub, ast.UAdd)):
+            v = const_int(e.operand)
+            return None if v is None else (-v if isinstance(e.op, ast.USub) else v)
+        if isinstance(e, ast.Name) and g.node_containing(e) is not None and not L.rd_of(f).defs_reaching(g.node_containing(e), e.id):
+            node = repo.const_node(f.mod.name, e.id)
+            return const_int(node) if node is not None and not isinstance(node, ast.Name) else None
+        return None
+
+    def class_names(e) -> Optional[Set[str]]:
+        if isinstance(e, (ast.Tuple, ast.List, ast.Set)):
+            out: Set[str] = set()
+            for x in e.elts:
+                s_ = class_names(x)
+                if s_ is None:
+                    return None
+                out |= s_
+            return out
+        nm = _class_name(e)
+        return {nm} if nm else None
+
+    def matcher_for(kind: str):
+        atom, is_pow, n = NODE_KINDS[kind]
+        memo: Dict[int, Optional[str]] = {}
+
+        def decide(e: ast.AST) -> Optional[bool]:
+            if isinstance(e, ast.Attribute) and isinstance(e.ctx, ast.Load) and is_node(e.value):
+                if e.attr == "is_Atom":
+                    return atom
+                if e.attr == "is_Pow":
+                    return is_pow
+                if e.attr in ("is_Add", "is_Mul") and kind != "sum-or-product":
+                    return False
+            if isinstance(e, ast.Call) and isinstance(e.func, ast.Name) and e.func.id == "isinstance" and len(e.args) == 2 and is_node(e.args[0]):
+                cs = class_names(e.args[1])
+                if cs is not None:
+                    if "Pow" in cs:
+                        return True if is_pow else (False if cs == {"Pow"} or (atom and not cs & (_ATOM_CLASS_NAMES | set(_ANCESTORS["Float"]))) else None)
+                    if cs <= {"Add", "Mul"} and kind != "sum-or-product":
+                        return False
+            if isinstance(e, ast.Compare) and len(e.ops) == 1:
+                o = e.ops[0]
+                a, b = e.left, e.comparators[0]
+                for x, y in ((a, b), (b, a)):
+                    tr = paths(x)
+                    if tr and tr <= {(root, "attr:func"), (root, "arg0:type"), (root, "attr:__class__")} and isinstance(o, (ast.Eq, ast.Is, ast.NotEq, ast.IsNot, ast.In, ast.NotIn)) and x is a:
+                        cs = class_names(y)
+                        if cs is not None and "Pow" in cs and (is_pow or cs == {"Pow"}):
+                            return is_pow == isinstance(o, (ast.Eq, ast.Is, ast.In))
+                    if n is not None and is_exp(x):
+                        c = const_int(y)
+                        if c is not None:
+                            l_, r_ = (n, c) if x is a else (c, n)
+                            table = {ast.Eq: l_ == r_, ast.NotEq: l_ != r_, ast.Lt: l_ < r_, ast.LtE: l_ <= r_, ast.Gt: l_ > r_, ast.GtE: l_ >= r_}
+                            if type(o) in table:
+                                return table[type(o)]
+            return None
+
+        def m(e: ast.AST) -> Optional[str]:
+            k = id(e)
+            if k not in memo:
+                v = decide(e)
+                memo[k] = None if v is None else ("T" if v else "!T")
+            return memo[k]
+        return m
+
+    def node_of_expr(e) -> Optional[int]:
+        return g.node_containing(e)
+
+    # ---- the constructs of the branches, by provenance
+    atom_calls = [c for c in L.calls_in(f.node) if U.ext_callee(repo, f, c) == "extract_atom" and c.args and is_node(c.args[0])]
+    recip_texts = [n for n, text in _built_texts(repo, f) if _RECIPROCAL_TEXT.search(text)]
+    walks: List[ast.AST] = []          # iteration over the arguments of the node
+    for n in ast.walk(f.node):
+        it = n.iter if isinstance(n, (ast.For, ast.comprehension)) else None
+        if it is not None:
+            tr = paths(it)
+            if tr and all(x[:2] == (root, "attr:args") and not any(st in ("elem", "item") or st.startswith("item:") for st in x[2:]) for x in tr):
+                walks.append(it)
+    exp_uses: List[ast.AST] = []       # the exponent used as a value (not merely tested or copied)
+    for n in ast.walk(f.node):
+        if isinstance(n, (ast.Name, ast.Attribute, ast.Subscript)) and isinstance(getattr(n, "ctx", None), ast.Load) and is_exp(n):
+            par = pm.get(n)
+            if isinstance(par, ast.Attribute) or _in_test(pm, n):
+                continue
+            if isinstance(par, (ast.Assign, ast.AnnAssign)) and getattr(par, "value", None) is n:
+                continue
+            if isinstance(par, ast.Tuple) and isinstance(pm.get(par), ast.Assign) and pm[par].value is par:
+                continue
+            if isinstance(par, ast.Compare):
+                continue
+            exp_uses.append(n)
+
+    def reached(G, seen, exprs) -> List[ast.AST]:
+        return [e for e in exprs if node_of_expr(e) in seen and G.reaches_expr({"T": True}, e, seen=seen)]
+
+    constructs = {"extract_atom": atom_calls, "the text '(/ 1 ..)'": recip_texts, "the walk over .args": walks, "the expansion of a power": exp_uses}
+    own = {"atom": "extract_atom", "reciprocal": "the text '(/ 1 ..)'", "square": "the expansion of a power", "cube": "the expansion of a power",
+           "sum-or-product": "the walk over .args"}
+    for kind in NODE_KINDS:
+        r.site(f"{f.qn} [{kind}]")
+        G = _Guards(repo, f, matcher_for(kind))
+        seen = G.reach({"T": True})
+        wrong = [name for name, exprs in constructs.items() if name != own[kind] and not (kind == "sum-or-product") and reached(G, seen, exprs)]
+        if kind in ("square", "cube"):
+            wrong = [w for w in wrong if w != "the expansion of a power"]
+        if wrong:
+            r.fail(Finding(rid, f, f"branch:{kind}:reaches-other", f"for a node of kind `{kind}` the printer reaches {' and '.join(wrong)}: the node is printed by the wrong "
+                           f"branch (a test on the node is missing, inverted or compares with another constant, or a branch does not return)"))
+            continue
+        if not constructs[own[kind]]:
+            if kind in ("square", "cube") and not walks and not recip_texts:
+                r.notes.append(f"{kind}: the branches of the printer are not recognised -- not decided")
+            elif kind in ("square", "cube"):
+                r.fail(Finding(rid, f, f"branch:{kind}:exponent-unused", "no branch of the printer uses the exponent of a power as a value: x**2 and x**3 are printed alike"))
+            elif kind == "sum-or-product" and not any(isinstance(n, ast.Attribute) and n.attr == "args" and is_node(n.value) for n in ast.walk(f.node)) \
+                    and not any(U.ext_callee(repo, f, c) != "extract_atom" and any(is_node(a) for a in list(c.args) + [k.value for k in c.keywords])
+                                and (any(t is not None for _k, t, _c in repo.resolve_call(f, c)[1]) or
+                                     (isinstance(c.func, ast.Attribute) and not (isinstance(c.func.value, ast.Name) and (repo.lookup(f.mod.name, c.func.value.id) or ("",))[0] == "module")))
+                                for c in L.calls_in(f.node)):
+                r.fail(Finding(rid, f, "branch:sum-or-product:arguments-never-read", "the printer never reads .args of the node it is handed: the terms of a sum / the factors "
+                               "of a product are not printed"))
+            else:
+                r.notes.append(f"{kind}: {own[kind]} is not recognised in the printer -- not decided")
+            continue
+        if not reached(G, seen, constructs[own[kind]]):
+            r.fail(Finding(rid, f, f"branch:{kind}:own-not-reached", f"for a node of kind `{kind}` the printer does not reach {own[kind]}"))
+        else:
+            r.ok({"kind": kind, "reaches": own[kind]})
+    # ---- trip count of the power expansion
+
+    def linear(e) -> Optional[Tuple[int, int]]:
+        c = const_int(e)
+        if c is not None:
+            return (0, c)
+        if is_exp(e):
+            return (1, 0)
+        if isinstance(e, ast.BinOp) and isinstance(e.op, (ast.Add, ast.Sub)):
+            a, b = linear(e.left), linear(e.right)
+            if a is None or b is None:
+                return None
+            return (a[0] + b[0], a[1] + b[1]) if isinstance(e.op, ast.Add) else (a[0] - b[0], a[1] - b[1])
+        if isinstance(e, ast.Name):
+            n_ = g.node_containing(e)
+            defs = L.rd_of(f).defs_reaching(n_, e.id) if n_ is not None else set()
+            if len(defs) == 1:
+                st = g.stmt[next(iter(defs))]
+                if isinstance(st, (ast.Assign, ast.AnnAssign)) and st.value is not None and not isinstance(st.value, ast.Name):
+                    return linear(st.value)
+        return None
+
+    def holes(e: ast.AST) -> Optional[List[ast.AST]]:
+        """the values written into a text template (f-string, str.format on a constant, %, +), in the order of the fields; None when
+        e is not such a template"""
+        if isinstance(e, ast.JoinedStr):
+            return [v.value for v in e.values if isinstance(v, ast.FormattedValue)]
+        if isinstance(e, ast.Call) and isinstance(e.func, ast.Attribute) and e.func.attr == "format":
+            ok, tmpl = repo.fold(e.func.value, f.mod.name)
+            if not ok or not isinstance(tmpl, str) or any(isinstance(a, ast.Starred) for a in e.args) or any(k.arg is None for k in e.keywords):
+                return None
+            out, auto = [], 0
+            for _lit, fld, _spec, _conv in string.Formatter().parse(tmpl):
+                if fld is None:
+                    continue
+                key = fld.split(".")[0].split("[")[0]
+                if key == "":
+                    key, auto = str(auto), auto + 1
+                if key.isdigit():
+                    if int(key) >= len(e.args):
+                        return None
+                    out.append(e.args[int(key)])
+                else:
+                    kw = next((k.value for k in e.keywords if k.arg == key), None)
+                    if kw is None:
+                        return None
+                    out.append(kw)
+            return out
+        if isinstance(e, ast.BinOp) and isinstance(e.op, ast.Mod):
+            ok, tmpl = repo.fold(e.left, f.mod.name)
+            if ok and isinstance(tmpl, str):
+                vals = list(e.right.elts) if isinstance(e.right, ast.Tuple) else [e.right]
+                return vals if len(re.findall(r"%[sdrf]", tmpl)) == len(vals) else None
+            return None
+        if isinstance(e, ast.BinOp) and isinstance(e.op, ast.Add):
+            out = []
+            for side in (e.left, e.right):
+                ok, v = repo.fold(side, f.mod.name)
+                if ok and isinstance(v, str):
+                    continue
+                h = holes(side)
+                out += h if h is not None else [side]
+            return out
+        return None
+
+    _holes_all = holes
+
+    def holes(e: ast.AST) -> Optional[List[ast.AST]]:      # noqa: F811 -- fields filled with a constant text are part of the literal
+        h = _holes_all(e)
+        return None if h is None else [x for x in h if not (repo.fold(x, f.mod.name)[0] and isinstance(repo.fold(x, f.mod.name)[1], str))]
+
+    def factors_of(e: ast.AST, at: int, depth: int = 0) -> Optional[int]:
+        """the number of values a starting text is made of: the fields of a template, one for any other value; names are followed
+        through their only definition"""
+        h = holes(e)
+        if h is not None:
+            return len(h)
+        if isinstance(e, ast.Name) and depth < 4:
+            defs = L.rd_of(f).defs_reaching(at, e.id)
+            if len(defs) == 1:
+                d = next(iter(defs))
+                st0 = g.stmt[d]
+                if d != g.entry and isinstance(st0, (ast.Assign, ast.AnnAssign)) and st0.value is not None and \
+                        (isinstance(st0, ast.AnnAssign) or (len(st0.targets) == 1 and isinstance(st0.targets[0], ast.Name))):
+                    return factors_of(st0.value, d, depth + 1)
+            return None
+        if isinstance(e, (ast.Subscript, ast.Attribute, ast.Call)):
+            return 1
+        return None
+
+    for loop in [n for n in ast.walk(f.node) if isinstance(n, ast.For)]:
+        it = loop.iter
+        if not (isinstance(it, ast.Call) and isinstance(it.func, ast.Name) and it.func.id == "range" and len(it.args) == 1 and not it.keywords):
+            continue
+        if not any(is_exp(x) for x in ast.walk(it.args[0]) if isinstance(x, ast.expr)) and linear(it.args[0]) in (None,) :
+            continue
+        lin = linear(it.args[0])
+        if lin is None or lin[0] == 0:
+            continue
+        r.site(L.site(f, loop, "power expansion"))
+        # the accumulated text: the one name that the body assigns from itself
+        accs = [st for st in loop.body if isinstance(st, ast.Assign) and len(st.targets) == 1 and isinstance(st.targets[0], ast.Name)
+                and any(isinstance(x, ast.Name) and x.id == st.targets[0].id and isinstance(x.ctx, ast.Load) for x in ast.walk(st.value))]
+        other = [st for st in loop.body if st not in accs and not isinstance(st, ast.Pass)]
+        if other or len(accs) > 1:
+            r.notes.append("power expansion: the body of the loop is not a single accumulation -- not decided")
+            continue
+        if not accs:
+            per_turn, self_refs, seed_e = 0, 1, None
+        else:
+            st = accs[0]
+            hs = holes(st.value)
+            if hs is None:
+                r.notes.append("power expansion: the accumulated text is not a plain template -- not decided")
+                continue
+            name = st.targets[0].id
+            self_refs = sum(1 for h in hs if isinstance(h, ast.Name) and h.id == name)
+            per_turn = len(hs) - self_refs
+            seed_e = name
+        seed = 1
+        if seed_e is not None:
+            n_loop = g.node_of(loop)
+            defs = [d for d in L.rd_of(f).defs_reaching(n_loop, seed_e) if g.loop_of.get(d) != n_loop]
+            counts = set()
+            for d in defs:
+                st0 = g.stmt[d]
+                if d != g.entry and isinstance(st0, (ast.Assign, ast.AnnAssign)) and st0.value is not None:
+                    counts.add(factors_of(st0.value, d))
+                else:
+                    counts.add(None)
+            if len(counts) != 1 or None in counts:
+                r.notes.append("power expansion: the text the loop starts from is not a plain template -- not decided")
+                continue
+            seed = counts.pop()
+        bad = [n for n in (2, 3) if self_refs != 1 or seed + per_turn * (lin[0] * n + lin[1]) != n]
+        if bad:
+            n = bad[0]
+            r.fail(Finding(rid, f, "power:factors", f"the expansion of x**n starts from {seed} factor(s) and runs {lin[0] if lin[0] != 1 else ''}n{lin[1]:+d} turns that add "
+                           f"{per_turn} factor(s) each{'' if self_refs == 1 else ' (the text built so far is not kept)'}: x**{n} is printed with "
+                           f"{seed + per_turn * (lin[0] * n + lin[1]) if self_refs == 1 else per_turn + 1} factors", node=loop))
+        else:
+            r.ok({"power": f"{seed} + {per_turn} * (n{lin[1]:+d}) factors"})
+    r.require_sites(5)
+
+    # =========================================================================================================== C13.walk
+    rw = RuleResult(wid, "sum / product: every printed argument that is not empty is collected on every path of a turn, the collection reaches the returned "
+                         "text, and every turn of the loop that nests the collected parts keeps the text built so far and adds the part of the turn",
+                    "satisfied by exactly the same valuations (no term of a sum / factor of a product is lost)")
+    Gs = _Guards(repo, f, matcher_for("sum-or-product"))
+    seen_s = Gs.reach({"T": True})
+    rd = L.rd_of(f)
+
+    def aliases_in(loop: ast.AST, names: Set[str]) -> Set[str]:
+        """the names that stand for the same value inside the loop: a name all of whose assignments in the loop copy one of them, and
+        the names such a copy is made from"""
+        assigns: Dict[str, List[ast.AST]] = {}
+        for st in ast.walk(loop):
+            if isinstance(st, (ast.Assign, ast.AugAssign, ast.AnnAssign)):
+                for t in (st.targets if isinstance(st, ast.Assign) else [st.target]):
+                    for nm in C.target_names(t):
+                        assigns.setdefault(nm, []).append(st.value if isinstance(st, ast.Assign) and isinstance(t, ast.Name) else None)
+        out = set(names)
+        n_head = g.node_of(loop)
+
+        def inside(d: int) -> bool:
+            cur = g.loop_of.get(d)
+            while cur is not None:
+                if cur == n_head:
+                    return True
+                cur = g.loop_of.get(cur)
+            return False
+        # a name that already has a value when the loop starts carries something else than the element of the turn
+        carried = {nm for nm in assigns if n_head is not None and any(not inside(d) for d in rd.defs_reaching(n_head, nm))}
+        grew = True
+        while grew:
+            grew = False
+            for nm, vals in assigns.items():
+                if nm in carried:
+                    continue
+                if nm not in out and all(isinstance(v, ast.Name) and v.id in out for v in vals):
+                    out.add(nm)
+                    grew = True
+                if nm in out:
+                    for v in vals:
+                        if isinstance(v, ast.Name) and v.id not in out and len(vals) == 1 and len(assigns.get(v.id, [])) <= 1:
+                            out.add(v.id)
+                            grew = True
+        return out
+
+    def stmt_node(e):
+        st = e
+        while st in pm and not isinstance(st, ast.stmt):
+            st = pm[st]
+        return g.node_of(st) if isinstance(st, ast.stmt) else None
+
+    walk_loops = [n for n in ast.walk(f.node) if isinstance(n, ast.For) and any(n.iter is w or any(x is w for x in ast.walk(n.iter)) for w in walks)]
+    walk_loops += [n for n in ast.walk(f.node) if isinstance(n, ast.For) and isinstance(n.iter, ast.Call) and getattr(n.iter.func, "id", "") == "range"
+                   and any(paths(x) and all(y == (root, "attr:args") for y in paths(x)) for x in ast.walk(n.iter) if isinstance(x, (ast.Attribute, ast.Name)))
+                   and n not in walk_loops]
+    for loop in walk_loops:
+        if g.node_of(loop) not in seen_s:
+            continue
+        rw.site(L.site(f, loop, "walk over the arguments"))
+        sinks: Dict[int, str] = {}
+        for st in ast.walk(loop):
+            if isinstance(st, ast.Expr) and isinstance(st.value, ast.Call) and isinstance(st.value.func, ast.Attribute) and st.value.func.attr in SINK_METHODS \
+                    and len(st.value.args) == 1 and isinstance(st.value.args[0], ast.Name) and U.flows_to_return(f, st.value.args[0]):
+                n_ = g.node_of(st)
+                if n_ is not None and g.loop_of.get(n_) == g.node_of(loop):
+                    sinks[n_] = st.value.args[0].id
+            elif isinstance(st, ast.Expr) and isinstance(st.value, ast.Yield) and isinstance(st.value.value, ast.Name):
+                n_ = g.node_of(st)
+                if n_ is not None and g.loop_of.get(n_) == g.node_of(loop):
+                    sinks[n_] = st.value.value.id
+        if not sinks:
+            inner_calls = [c for c in L.calls_in(loop) if any(paths(a) and all(y[:2] == (root, "attr:args") for y in paths(a)) for a in c.args[:1])]
+            if inner_calls and not any(U.flows_to_return(f, c) for c in inner_calls):
+                rw.fail(Finding(wid, f, "walk:part-not-collected", "what the printer returns for an argument of a sum / product is put into no collection that reaches the returned "
+                                "text: every term / factor is lost", node=loop))
+            elif inner_calls:
+                rw.notes.append("walk: the printed arguments are not collected by append / yield in the loop -- not decided")
+            else:
+                rw.notes.append("walk: the call that prints an argument is not recognised -- not decided")
+            continue
+        part_names = aliases_in(loop, set(sinks.values()))
+
+        def part_matcher(e, base=matcher_for("sum-or-product"), part_names=part_names, loop=loop):
+            v = base(e)
+            if v is not None:
+                return v
+            if isinstance(e, ast.Name) and isinstance(e.ctx, ast.Load) and e.id in part_names and any(e is x for x in ast.walk(loop)):
+                return "part"
+            if isinstance(e, ast.Compare) and len(e.ops) == 1 and isinstance(e.left, ast.Name) and e.left.id in part_names and any(e is x for x in ast.walk(loop)):
+                c0 = e.comparators[0]
+                if isinstance(c0, ast.Constant) and c0.value in (None, ""):
+                    if isinstance(e.ops[0], (ast.Eq, ast.Is)):
+                        return "!part"
+                    if isinstance(e.ops[0], (ast.NotEq, ast.IsNot)):
+                        return "part"
+            return None
+        Gp = _Guards(repo, f, part_matcher)
+        if L.leaves_loop_early(Gp, {"T": True, "part": True}, loop) or L.leaves_loop_early(Gp, {"T": True, "part": False}, loop):
+            rw.fail(Finding(wid, f, "walk:left-early", "the walk over the arguments of a sum / product can be left before the last argument: the remaining terms / "
+                            "factors are lost", node=loop))
+        elif not L.must_pass_in_loop(Gp, {"T": True, "part": True}, loop, set(sinks)):
+            rw.fail(Finding(wid, f, "walk:part-not-collected", "a turn of the walk over the arguments can end without collecting a non-empty printed argument (the truth "
+                            "test on it is inverted or the collection is skipped): the term / factor is lost", node=loop))
+        else:
+            rw.ok({"walk": unparse(loop.iter, 50), "collected_on_every_path": True})
+    # ---- the loop that nests the parts
+    for loop in [n for n in ast.walk(f.node) if isinstance(n, ast.For) and n not in walk_loops]:
+        n_loop = g.node_of(loop)
+        if n_loop is None or n_loop not in seen_s:
+            continue
+        elem = aliases_in(loop, C.target_names(loop.target))
+        accs: Dict[str, List[ast.Assign]] = {}
+        for st in ast.walk(loop):
+            if isinstance(st, ast.Assign) and len(st.targets) == 1 and isinstance(st.targets[0], ast.Name) and g.loop_of.get(g.node_of(st)) == n_loop:
+                used = {x.id for x in ast.walk(st.value) if isinstance(x, ast.Name) and isinstance(x.ctx, ast.Load)}
+                if used & elem and st.targets[0].id not in elem:
+                    accs.setdefault(st.targets[0].id, []).append(st)
+        accs = {a: sts for a, sts in accs.items() if any(U.flows_to_return(f, st.targets[0]) or U.flows_to_return(f, st.value) for st in sts)
+                and (any(a in {x.id for x in ast.walk(st.value) if isinstance(x, ast.Name)} for st in sts)
+                     or any(isinstance(x, ast.Name) and x.id == a and isinstance(x.ctx, ast.Load) and _in_test(pm, x) for x in ast.walk(loop)))}
+        # the collection that is walked holds printed parts (texts), not nodes of the expression
+        tr_iter = paths(loop.iter)
+        if not accs or (tr_iter and all(x[0] == root and "attr:args" in x and not any(s_.startswith("arg") for s_ in x) for x in tr_iter)):
+            continue
+        for acc, sts in accs.items():
+            rw.site(L.site(f, loop, "nesting of the parts"))
+
+            def arms(e):
+                return arms(e.body) + arms(e.orelse) if isinstance(e, ast.IfExp) else [e]
+
+            def names_of(e):
+                return {x.id for x in ast.walk(e) if isinstance(x, ast.Name) and isinstance(x.ctx, ast.Load)}
+
+            all_assigns = [st for st in ast.walk(loop) if isinstance(st, ast.Assign) and len(st.targets) == 1 and isinstance(st.targets[0], ast.Name)
+                           and st.targets[0].id == acc and g.loop_of.get(g.node_of(st)) == n_loop]
+
+            def acc_matcher(e, base=matcher_for("sum-or-product"), acc=acc, loop=loop):
+                v = base(e)
+                if v is not None:
+                    return v
+                if isinstance(e, ast.Name) and isinstance(e.ctx, ast.Load) and e.id == acc and any(e is x for x in ast.walk(loop)):
+                    return "acc"
+                if isinstance(e, ast.Compare) and len(e.ops) == 1 and isinstance(e.left, ast.Name) and e.left.id == acc and any(e is x for x in ast.walk(loop)):
+                    c0 = e.comparators[0]
+                    if isinstance(c0, ast.Constant) and c0.value in (None, ""):
+                        if isinstance(e.ops[0], (ast.Eq, ast.Is)):
+                            return "!acc"
+                        if isinstance(e.ops[0], (ast.NotEq, ast.IsNot)):
+                            return "acc"
+                return None
+            Ga = _Guards(repo, f, acc_matcher)
+            tested = "acc" in Ga.atoms_seen and any(_in_test(pm, x) for x in ast.walk(loop) if isinstance(x, ast.Name) and x.id == acc and isinstance(x.ctx, ast.Load))
+            problem = None
+            for built in ((True, False) if tested else (True,)):
+                good = set()
+                for st in all_assigns:
+                    if all((names_of(a) & elem) and (not built or acc in names_of(a)) for a in arms(st.value)):
+                        good.add(g.node_of(st))
+                val = {"T": True, "acc": built} if tested else {"T": True}
+                if not L.must_pass_in_loop(Ga, val, loop, good):
+                    problem = ("a turn that finds text already built can end without a new text that contains both that text and the part of the turn: what was nested "
+                               "so far is overwritten or the part is skipped") if built else \
+                              "a turn that finds no text built yet can end without taking the part of the turn as the text: the first part is lost and nothing is ever built"
+                    break
+            if problem is None and L.leaves_loop_early(Ga, {"T": True}, loop):
+                problem = "the loop that nests the parts can be left before the last part"
+            if problem:
+                rw.fail(Finding(wid, f, "nesting:part-lost", f"nesting of the printed parts of a sum / product: {problem}", node=loop))
+            else:
+                rw.ok({"nesting": unparse(loop.iter, 40), "keeps_text_and_adds_part": True})
+    _printer_results[id(repo)] = (repo, (r, rw))
+    return r, rw
+
+
+# =============================================================================================================== C13.zerodrop
+def rule_zerodrop(repo: Repo, rid: str = "C13.zerodrop") -> RuleResult:
+    """extract_atom on a Float (guard valuation over: the class is Float, the zero-dropping flag, `the printed number is 0`): with the flag
+    off a text is returned on every path (right-hand sides are never dropped); with the flag on, None is returned only when the printed
+    number compares equal to 0 -- not when it differs from 0, and not against another constant.  The value is the first argument of
+    round() / format(), the number of decimals the second (provenance)"""
+    r = RuleResult(rid, "a Float atom is dropped (None) only if zero-dropping is on AND the printed number is 0; round / format get (value, decimals)",
+                   "up to rounding of coefficients at the requested number of decimals; valid PDDL")
+    f = _fn(repo, f"{NS}::extract_atom")
+    p = L.prov(repo, f)
+    T = _ClassTests(repo, f)
+    if ZERO_FLAG not in f.params:
+        raise AnalysisError(f"extract_atom has no parameter {ZERO_FLAG}")
+    value_root = f"param:{f.params[0]}"
+
+    def roots(e) -> Set[str]:
+        try:
+            return {x[0] for x in p.trace(e) if not x[0].startswith(("const:", "builtin:", "global:", "fresh:"))}
+        except (KeyError, RecursionError):
+            return set()
+
+    boundary: List[Tuple[ast.AST, object]] = []
+
+    def zero_test(e: ast.AST) -> Optional[str]:
+        if isinstance(e, ast.Compare) and len(e.ops) == 1 and isinstance(e.ops[0], (ast.Eq, ast.NotEq)):
+            for x, y in ((e.left, e.comparators[0]), (e.comparators[0], e.left)):
+                if isinstance(y, ast.Constant) and isinstance(y.value, (int, float)) and not isinstance(y.value, bool) and not isinstance(x, ast.Constant) \
+                        and isinstance(x, ast.Call) and callee_name(x) in ("float", "Decimal", "abs") and value_root in roots(x):
+                    if y.value == 0:
+                        return "zero" if isinstance(e.ops[0], ast.Eq) else "!zero"
+                    if not any(b is e for b, _v in boundary):
+                        boundary.append((e, y.value))
+        return None
+
+    def matcher(e: ast.AST) -> Optional[str]:
+        v = T.truth(e, "Float")
+        if v is not None:
+            return "is" if v else "!is"
+        if isinstance(e, ast.Name) and isinstance(e.ctx, ast.Load) and L.is_param(p, e, ZERO_FLAG):
+            return "flag"
+        return zero_test(e)
+
+    G = _Guards(repo, f, matcher)
+    g = G.g
+
+    def statuses(val: Dict[str, bool]) -> Tuple[Set[str], Optional[ast.AST]]:
+        seen = G.reach(val)
+        out: Set[str] = set()
+        where = None
+
+        def of(v, at) -> Set[str]:
+            if v is None or (isinstance(v, ast.Constant) and v.value is None):
+                return {"none"}
+            if isinstance(v, ast.IfExp):
+                t = G.value(val, v.test, seen)
+                if t is True:
+                    return of(v.body, at)
+                if t is False:
+                    return of(v.orelse, at)
+                return of(v.body, at) | of(v.orelse, at)
+            if isinstance(v, (ast.JoinedStr, ast.Constant)) or (isinstance(v, ast.Call) and callee_name(v) in ("str", "format", "repr")):
+                return {"text"}
+            if isinstance(v, ast.Name):
+                nn = G._noneness(v, at, seen)
+                if nn is not None:
+                    return {"none" if nn else "text"}
+                defs = [d for d in L.rd_of(f).defs_reaching(at, v.id) if d in seen]
+                sub: Set[str] = set()
+                for d in defs:
+                    st = g.stmt[d]
+                    if d != g.entry and isinstance(st, (ast.Assign, ast.AnnAssign)) and st.value is not None and \
+                            (isinstance(st, ast.AnnAssign) or (len(st.targets) == 1 and isinstance(st.targets[0], ast.Name))):
+                        sub |= of(st.value, d)
+                    else:
+                        sub.add("unknown")
+                return sub or {"unknown"}
+            return {"unknown"}
+
+        for n in seen:
+            if g.kind[n] == "return":
+                st = g.stmt[n]
+                s_ = of(st.value, n)
+                if "none" in s_ and where is None:
+                    where = st
+                out |= s_
+        return out, where
+
+    r.site(f"{f.qn} [flag off]")
+    if "flag" not in G.atoms_seen or "is" not in G.atoms_seen:
+        r.notes.append("extract_atom: the test of the zero-dropping flag / of the class Float is not recognised -- not decided")
+    else:
+        st_off, where = statuses({"is": True, "flag": False})
+        if not st_off:
+            r.fail(Finding(rid, f, "flag-off:no-text", f"with {ZERO_FLAG} off no return statement is reached for a Float: every decimal on a right-hand side raises"))
+        elif "none" in st_off:
+            r.fail(Finding(rid, f, "flag-off:dropped", f"with {ZERO_FLAG} off a Float can still be answered with None: a right-hand side that rounds to zero is printed as 'None'", node=where))
+        elif "unknown" in st_off:
+            r.notes.append("extract_atom: what is returned with the flag off is not interpreted -- not decided")
+        else:
+            r.ok({"flag": False, "returns": "text"})
+        r.site(f"{f.qn} [flag on]")
+        if "zero" in G.atoms_seen:
+            st_nz, where = statuses({"is": True, "flag": True, "zero": False})
+            st_z, _w = statuses({"is": True, "flag": True, "zero": True})
+            if "none" in st_nz:
+                r.fail(Finding(rid, f, "flag-on:nonzero-dropped", "a Float whose printed value is NOT 0 is answered with None: every decimal coefficient vanishes from left-hand sides", node=where))
+            elif "unknown" in st_nz:
+                r.notes.append("extract_atom: what is returned for a non-zero number is not interpreted -- not decided")
+            else:
+                r.ok({"flag": True, "non_zero": "text", "zero": sorted(st_z)})
+        elif boundary:
+            e, c = boundary[0]
+            r.fail(Finding(rid, f, "flag-on:boundary", f"the test that decides whether a Float is dropped is {unparse(e, 50)}: numbers that print as {c} are dropped, numbers that "
+                           f"print as 0 are kept (the constant of the zero test is 0)", node=e))
+        else:
+            st_on, _w = statuses({"is": True, "flag": True})
+            if "none" in st_on:
+                r.notes.append("extract_atom: the test under which a Float is dropped is not recognised -- not decided")
+            else:
+                r.ok({"flag": True, "dropped": "never"})
+    # ---- argument roles of round / format
+    digits_root = "param:decimal_digits"
+    for c in L.calls_in(f.node):
+        if isinstance(c.func, ast.Name) and c.func.id in ("round", "format") and len(c.args) == 2 and not c.keywords:
+            a, b = roots(c.args[0]), roots(c.args[1])
+            if not (value_root in a | b):
+                continue
+            r.site(L.site(f, c, f"{c.func.id} arguments"))
+            if value_root in b and value_root not in a:
+                r.fail(Finding(rid, f, f"{c.func.id}-arguments", f"{unparse(c, 60)}: the number is the SECOND argument of {c.func.id}() and "
+                               f"{'the number of decimals' if digits_root in a else 'something else'} the first: TypeError for every Float that takes this path", node=c))
+            else:
+                r.ok({"call": unparse(c, 60)})
+    r.require_sites(2)
+    return r
+
+
+# =============================================================================================================== C13.fluents
+def rule_fluents(repo: Repo, rid: str = "C13.fluents") -> RuleResult:
+    """transform_expression hands the text back untransformed only when NO fluent was found in it: a return whose text is the parameter
+    itself (no replacement on any path) is not reachable when the collection of found fluents is not empty -- in particular not under a
+    length test against another constant than 0 (guard valuation over `found is empty` and the other length tests on it)"""
+    r = RuleResult(rid, "the untransformed text is returned only if no fluent was found (boundary of the length test on the found fluents)",
+                   "text that the reader accepts / sympy can parse for every number of fluents")
+    f = _fn(repo, f"{NS}::transform_expression")
+    p = L.prov(repo, f)
+    text_root = (f"param:{f.params[0]}",) if f.params else None
+    if text_root is None:
+        raise AnalysisError("transform_expression: no parameters")
+
+    def is_found(e) -> bool:
+        try:
+            tr = [x for x in p.trace(e) if not x[0].startswith(("const:", "builtin:", "global:"))]
+        except (KeyError, RecursionError):
+            return False
+        return bool(tr) and all(any(st.endswith((":findall", ":finditer")) or st in ("call:findall", "call:finditer") for st in x) or x[0] in ("ext:findall", "ext:finditer") for x in tr)
+
+    odd: List[ast.AST] = []
+
+    def matcher(e: ast.AST) -> Optional[str]:
+        if isinstance(e, ast.Name) and isinstance(e.ctx, ast.Load) and is_found(e):
+            return "!empty"
+        if isinstance(e, ast.Compare) and len(e.ops) == 1:
+            l_, r_, op = e.left, e.comparators[0], type(e.ops[0])
+            if isinstance(l_, ast.Call) and isinstance(l_.func, ast.Name) and l_.func.id == "len" and len(l_.args) == 1 and is_found(l_.args[0]) \
+                    and isinstance(r_, ast.Constant) and isinstance(r_.value, int) and not isinstance(r_.value, bool):
+                c = r_.value
+                if (op, c) in ((ast.Eq, 0), (ast.Lt, 1), (ast.LtE, 0)):
+                    return "empty"
+                if (op, c) in ((ast.NotEq, 0), (ast.Gt, 0), (ast.GtE, 1)):
+                    return "!empty"
+                if not any(o is e for o in odd):
+                    odd.append(e)
+                return "odd"
+            if op in (ast.Eq, ast.NotEq) and is_found(l_) and ((isinstance(r_, (ast.List, ast.Tuple, ast.Set, ast.Dict)) and not getattr(r_, "elts", getattr(r_, "keys", None)))
+                                                              or (isinstance(r_, ast.Call) and callee_name(r_) in ("set", "list", "frozenset", "tuple") and not r_.args)):
+                return "empty" if op is ast.Eq else "!empty"
+        return None
+
+    G = _Guards(repo, f, matcher)
+    g = G.g
+    r.site(f.qn)
+    untouched = []
+    for n in g.nodes():
+        st = g.stmt[n]
+        if g.kind[n] == "return" and st.value is not None:
+            v = st.value.elts[0] if isinstance(st.value, ast.Tuple) and st.value.elts else st.value
+            try:
+                tr = {x for x in p.trace(v) if not x[0].startswith("const:")}
+            except (KeyError, RecursionError):
+                continue
+            if tr == {text_root}:
+                untouched.append((n, st))
+    if not odd:
+        r.ok({"untransformed_return": len(untouched), "length_tests": "emptiness only"})
+        return r
+    seen = G.reach({"odd": True, "empty": False})
+    hit = [st for n, st in untouched if n in seen]
+    if hit:
+        r.fail(Finding(rid, f, "untransformed-with-fluents", f"under the test {unparse(odd[0], 50)} (the found fluents are NOT none) the text is returned as it was handed in: "
+                       f"its fluents are not replaced by symbols and sympy's parser fails on them", node=hit[0]))
+    else:
+        r.ok({"untransformed_return": len(untouched), "length_tests": [unparse(o, 40) for o in odd]})
     return r
 
 
@@ -1396,4 +3123,5 @@ def rules(repo: Repo, tier: str) -> List[RuleResult]:
     env.rule = "C13.env"
     for fd in env.findings:
         fd.rule = "C13.env"
-    return [rule_vocab(repo), rule_mangle(repo), rule_round(repo), rule_atoms(repo), rule_sides(repo), rule_eliminate(repo), rule_digits(repo), env, rule_fullprecision(repo), rule_opmatch(repo)]
+    return [rule_vocab(repo), rule_mangle(repo), rule_round(repo), rule_atoms(repo), rule_sides(repo), rule_eliminate(repo), rule_digits(repo), env, rule_fullprecision(repo), rule_opmatch(repo),
+            rule_returns(repo), rule_operands(repo), rule_conditions(repo), rule_branches(repo), rule_walk(repo), rule_zerodrop(repo), rule_fluents(repo)]
